@@ -9,71 +9,237 @@ REL = "cryocat/memthick.py"
 
 
 # ================================================================================ translator (T)
+# Everything below works on a CANONICAL copy of each function: parameters are renamed a0, a1, ... by position, local
+# variables v0, v1, ... in the order of their first binding, docstrings / logging statements are removed. Anchors therefore do
+# not depend on how locals (or parameters) are called; the public parameter names and defaults are anchored separately
+# (signature anchors). Every anchored item is DATA (statement lists, expression trees, operators) — the expected literal is
+# written in Props/C20.lean and compared by the Lean kernel, not by a predicate of this file.
+import copy
+
+_FUNCS = dict(cuda="find_all_possible_matches_kernel", gpu2cpu="process_matches_gpu2cpu", gpu="measure_thickness_gpu",
+              numba="find_matches_parallel", cpu="measure_thickness_cpu", cpu2cpu="process_matches_cpu2cpu",
+              top="measure_membrane_thickness")
+# parameter positions (pinned by the signature theorems) of the quantities the anchors talk about
+_ROLES = dict(
+    cuda=dict(P=0, N=1, M1=2, M2=3, MD=4, MI=5, MC=6, R=7, M=8, CAP=9),
+    numba=dict(P=0, N=1, M1=2, M2=3, TI=4, R=5, M=6, MD=7, MI=8, MC=9),
+    cpu=dict(P=0, N=1, S1=2, S2=3, VOXEL=4, MAXNM=5, DEG=6, DIR=7, CAP=10),
+    gpu=dict(P=0, N=1, S1=2, S2=3, VOXEL=4, MAXNM=5, DEG=6, DIR=7),
+)
+
+
+def _param_names(fn):
+    a = fn.args
+    names = [x.arg for x in a.posonlyargs + a.args]
+    if a.vararg:
+        names.append(a.vararg.arg)
+    names += [x.arg for x in a.kwonlyargs]
+    if a.kwarg:
+        names.append(a.kwarg.arg)
+    return names
+
+
+def _signature(fn):
+    """['points', ..., 'max_thickness_nm=8.0', ...] — the public names and defaults, in order"""
+    a = fn.args
+    pos = a.posonlyargs + a.args
+    nd = len(pos) - len(a.defaults)
+    out = [x.arg + ("=" + ast.unparse(a.defaults[k - nd]) if k >= nd else "") for k, x in enumerate(pos)]
+    if a.vararg:
+        out.append("*" + a.vararg.arg)
+    for x, d in zip(a.kwonlyargs, a.kw_defaults):
+        out.append(x.arg + ("=" + ast.unparse(d) if d is not None else "") + " (kw-only)")
+    if a.kwarg:
+        out.append("**" + a.kwarg.arg)
+    return out
+
+
+def _is_logging(st, helpers):
+    if isinstance(st, ast.Expr) and isinstance(st.value, ast.Constant) and isinstance(st.value.value, str):
+        return True  # docstring / bare string
+    if isinstance(st, ast.Assign) and len(st.targets) == 1 and isinstance(st.targets[0], ast.Name) and st.targets[0].id in helpers:
+        return True
+    if isinstance(st, ast.Expr) and isinstance(st.value, ast.Call):
+        f = st.value.func
+        if isinstance(f, ast.Name) and (f.id in helpers or f.id == "print"):
+            return True
+        if isinstance(f, ast.Attribute) and isinstance(f.value, ast.Name) and f.value.id == "logger":
+            return True
+    return False
+
+
+def _prune(block, helpers):
+    out = []
+    for st in block:
+        if _is_logging(st, helpers):
+            continue
+        for fld in ("body", "orelse", "finalbody"):
+            if isinstance(getattr(st, fld, None), list):
+                setattr(st, fld, _prune(getattr(st, fld), helpers))
+        if isinstance(st, ast.If) and not st.body and not st.orelse:
+            continue  # an `if` that only logged
+        if isinstance(st, (ast.If, ast.For, ast.While)) and not st.body:
+            st.body = [ast.Pass()]
+        out.append(st)
+    return out
+
+
+def _canon(fn):
+    """canonical copy of a function (see the comment at the top of this section)"""
+    fn = copy.deepcopy(fn)
+    helpers = set()
+    for n in ast.walk(fn):
+        if isinstance(n, ast.Assign) and len(n.targets) == 1 and isinstance(n.targets[0], ast.Name) and isinstance(n.value, ast.Lambda) \
+                and any(isinstance(x, ast.Name) and x.id in ("logger", "print") for x in ast.walk(n.value)):
+            helpers.add(n.targets[0].id)
+    fn.body = _prune(fn.body, helpers)
+    mapping = {p: f"a{k}" for k, p in enumerate(_param_names(fn))}
+    binders = []
+    for st in fn.body:
+        for n in ast.walk(st):
+            if isinstance(n, ast.Name) and isinstance(n.ctx, ast.Store):
+                binders.append((n.lineno, n.col_offset, n.id))
+            elif isinstance(n, ast.arg):
+                binders.append((n.lineno, n.col_offset, n.arg))
+    k = 0
+    for _, _, name in sorted(binders):
+        if name not in mapping:
+            mapping[name] = f"v{k}"
+            k += 1
+    for n in ast.walk(fn):
+        if isinstance(n, ast.Name) and n.id in mapping:
+            n.id = mapping[n.id]
+        elif isinstance(n, ast.arg) and n.arg in mapping:
+            n.arg = mapping[n.arg]
+    return fn
+
+
+def _dump(block, depth=0, out=None):
+    """ordered statement list of a block: 'depth|text' (compound statements contribute their header line)"""
+    out = [] if out is None else out
+    for st in block:
+        if isinstance(st, ast.If):
+            out.append(f"{depth}|if {ast.unparse(st.test)}:")
+            _dump(st.body, depth + 1, out)
+            if st.orelse:
+                out.append(f"{depth}|else:")
+                _dump(st.orelse, depth + 1, out)
+        elif isinstance(st, (ast.For, ast.While)):
+            out.append(f"{depth}|for {ast.unparse(st.target)} in {ast.unparse(st.iter)}:" if isinstance(st, ast.For) else f"{depth}|while {ast.unparse(st.test)}:")
+            _dump(st.body, depth + 1, out)
+            if st.orelse:
+                out.append(f"{depth}|else:")
+                _dump(st.orelse, depth + 1, out)
+        elif isinstance(st, (ast.With, ast.Try, ast.FunctionDef, ast.ClassDef, ast.AsyncFunctionDef, ast.Match)):
+            out.append(f"{depth}|{type(st).__name__} " + " ".join(ast.unparse(st).split()))
+        else:
+            out.append(f"{depth}|" + " ".join(ast.unparse(st).split()))
+    return out
+
+
+class _Flow:
+    """where every statement sits (block, position, parent) and which names are bound exactly once by a plain assignment"""
+
+    def __init__(self, fn):
+        self.where, self.binds, self.other = {}, {}, set()
+        self._index(fn.body, None)
+
+    def _index(self, block, parent):
+        for k, st in enumerate(block):
+            self.where[id(st)] = (id(block), k, parent)
+            plain = isinstance(st, ast.Assign) and len(st.targets) == 1 and isinstance(st.targets[0], ast.Name)
+            if plain:
+                self.binds.setdefault(st.targets[0].id, []).append(st)
+            heads = [st] if not isinstance(st, (ast.If, ast.For, ast.While, ast.With, ast.Try)) else \
+                [x for x in (getattr(st, "target", None), getattr(st, "test", None), getattr(st, "iter", None)) if x is not None]
+            for h in heads:
+                for n in ast.walk(h):
+                    if isinstance(n, ast.Name) and isinstance(n.ctx, ast.Store) and not (plain and n is st.targets[0]):
+                        self.other.add(n.id)
+            for fld in ("body", "orelse", "finalbody"):
+                sub = getattr(st, fld, None)
+                if isinstance(sub, list):
+                    self._index(sub, st)
+
+    def path(self, st):
+        """[(block, position)] of st and of every enclosing statement"""
+        out = []
+        while st is not None:
+            b, k, parent = self.where[id(st)]
+            out.append((b, k))
+            st = parent
+        return out
+
+    def lookup(self, name, use):
+        """THE assignment `name = value` that reaches statement `use`: the name is bound exactly once in the function, by a plain
+        assignment that stands earlier in the same block as `use` or in a block enclosing it (so it is executed before every use)"""
+        bs = self.binds.get(name, [])
+        if name in self.other or len(bs) != 1:
+            raise core.AnchorMissing(f"{name} is not bound by exactly one plain assignment")
+        b, k, _ = self.where[id(bs[0])]
+        if not any(bb == b and k < kk for bb, kk in self.path(use)):
+            raise core.AnchorMissing(f"the assignment to {name} does not precede its use on every path")
+        return bs[0]
+
+
 class _Sym:
-    """symbolic inliner for one kernel: resolves local names to expressions over points/normals/params"""
+    """symbolic inliner over a canonical function: local names -> expressions over points / normals / the two scalars"""
 
-    def __init__(self, fn, upto_line):
-        self.assign = {}
-        for n in ast.walk(fn):
-            if isinstance(n, ast.Assign) and len(n.targets) == 1 and isinstance(n.targets[0], ast.Name):
-                self.assign.setdefault(n.targets[0].id, []).append(n)
-        self.upto = upto_line
-        self.leaves = []  # (array, index-text, component)
+    def __init__(self, flow, pname, nname, scalar):
+        self.flow, self.pname, self.nname, self.scalar = flow, pname, nname, scalar
+        self.leaves = []
 
-    def lookup(self, name, line):
-        """nearest assignment to `name` strictly before `line`"""
-        c = [a for a in self.assign.get(name, []) if a.lineno < line]
-        return max(c, key=lambda a: a.lineno) if c else None
-
-    def leaf(self, node, line):
-        """points[X][k] / points[X, k] / alias[k] -> ('points'|'normals', 'X', k)"""
+    def leaf(self, node, st):
         if not isinstance(node, ast.Subscript):
             return None
         base, idx = node.value, node.slice
-        if isinstance(base, ast.Name) and base.id in ("points", "normals"):
+        arrs = {self.pname: "points", self.nname: "normals"}
+        if isinstance(base, ast.Name) and base.id in arrs:
             if isinstance(idx, ast.Tuple) and len(idx.elts) == 2 and isinstance(idx.elts[1], ast.Constant):
-                return (base.id, ast.unparse(idx.elts[0]), int(idx.elts[1].value))
+                return (arrs[base.id], ast.unparse(idx.elts[0]), int(idx.elts[1].value))
             return None
         if isinstance(idx, ast.Constant) and isinstance(idx.value, int):
             inner = base
             if isinstance(inner, ast.Name):
-                a = self.lookup(inner.id, line)
-                if a is None:
-                    return None
-                inner = a.value
-            if isinstance(inner, ast.Subscript) and isinstance(inner.value, ast.Name) and inner.value.id in ("points", "normals") \
-                    and not isinstance(inner.slice, ast.Tuple):
-                return (inner.value.id, ast.unparse(inner.slice), int(idx.value))
+                inner = self.flow.lookup(inner.id, st).value
+            if isinstance(inner, ast.Subscript) and isinstance(inner.value, ast.Name) and inner.value.id in arrs and not isinstance(inner.slice, ast.Tuple):
+                return (arrs[inner.value.id], ast.unparse(inner.slice), int(idx.value))
         return None
 
-    def expr(self, node, line, depth=0):
+    def expr(self, node, st, depth=0):
         if depth > 60:
             raise core.AnchorMissing("expression too deep")
         if isinstance(node, ast.BinOp):
             if isinstance(node.op, ast.Pow):
                 if isinstance(node.right, ast.Constant) and node.right.value == 2:
-                    return ("sq", self.expr(node.left, line, depth + 1))
+                    return ("sq", self.expr(node.left, st, depth + 1))
                 raise core.AnchorMissing("power other than 2: " + ast.unparse(node))
             op = {ast.Add: "add", ast.Sub: "sub", ast.Mult: "mul"}.get(type(node.op))
             if op is None:
                 raise core.AnchorMissing("operator " + ast.unparse(node))
-            return (op, self.expr(node.left, line, depth + 1), self.expr(node.right, line, depth + 1))
+            return (op, self.expr(node.left, st, depth + 1), self.expr(node.right, st, depth + 1))
         if isinstance(node, ast.Subscript):
-            lf = self.leaf(node, line)
+            lf = self.leaf(node, st)
             if lf is None:
                 raise core.AnchorMissing("unrecognised subscript " + ast.unparse(node))
             self.leaves.append(lf)
             return ("leaf",) + lf
         if isinstance(node, ast.Name):
-            if node.id == "max_angle_cos":
-                return ("var", "m")
-            if node.id == "max_thickness_voxels":
-                return ("var", "r")
-            a = self.lookup(node.id, line)
-            if a is None:
-                raise core.AnchorMissing("unbound name " + node.id)
-            return self.expr(a.value, a.lineno, depth + 1)
+            v = self.scalar(node.id, st)
+            if v is not None:
+                return ("var", v)
+            a = self.flow.lookup(node.id, st)
+            return self.expr(a.value, a, depth + 1)
         raise core.AnchorMissing("unsupported expression " + ast.unparse(node)[:60])
+
+    def sqrt_arg(self, node, st):
+        """node is `sqrt(x)` or a name assigned `sqrt(x)`: the expression x"""
+        if isinstance(node, ast.Name):
+            a = self.flow.lookup(node.id, st)
+            node, st = a.value, a
+        if isinstance(node, ast.Call) and ast.unparse(node.func) in ("np.sqrt", "math.sqrt") and len(node.args) == 1 and not node.keywords:
+            return self.expr(node.args[0], st)
+        raise core.AnchorMissing("not a square root: " + ast.unparse(node)[:60])
 
 
 _CMP = {ast.Lt: "lt", ast.LtE: "le", ast.Gt: "gt", ast.GtE: "ge", ast.Eq: "eq", ast.NotEq: "ne"}
@@ -104,244 +270,338 @@ def _lean_expr(e):
     return f"(.{e[0]} {_lean_expr(e[1])} {_lean_expr(e[2])})"
 
 
-def _site(src, fname):
-    """-> dict(dist2, proj, projCmp, lat2, coneCmp, coneRhs, ball, sqrt)"""
-    fn = src.find(REL, fname)
-    cone = [n for n in ast.walk(fn) if isinstance(n, ast.Compare) and isinstance(n.left, ast.Name) and n.left.id == "lateral_dist_sq"]
-    if len(cone) != 1 or len(cone[0].ops) != 1:
-        raise core.AnchorMissing(f"{fname}: exactly one comparison `lateral_dist_sq <op> ...` expected, found {len(cone)}")
-    cone = cone[0]
-    pj = [n for n in ast.walk(fn) if isinstance(n, ast.Compare) and isinstance(n.left, ast.Name) and n.left.id == "proj"]
-    if len(pj) != 1 or len(pj[0].ops) != 1 or not (isinstance(pj[0].comparators[0], ast.Constant) and pj[0].comparators[0].value == 0):
-        raise core.AnchorMissing(f"{fname}: exactly one comparison `proj <op> 0` expected")
-    pj = pj[0]
-    if not (pj.lineno < cone.lineno):
-        raise core.AnchorMissing(f"{fname}: the proj test does not precede the cone test")
-    sym = _Sym(fn, cone.lineno)
-    lat2 = sym.expr(cone.left, cone.lineno)
-    rhs = sym.expr(cone.comparators[0], cone.lineno)
-    proj = sym.expr(pj.left, pj.lineno)
-    da = sym.lookup("dist", cone.lineno)
-    if da is None or not (isinstance(da.value, ast.Call) and ast.unparse(da.value.func) in ("np.sqrt", "math.sqrt") and len(da.value.args) == 1):
-        raise core.AnchorMissing(f"{fname}: dist = sqrt(...) not found")
-    dist2 = sym.expr(da.value.args[0], da.lineno)
+def _aexpr(node, deg):
+    if isinstance(node, ast.Name) and node.id == deg:
+        return ".deg"
+    if isinstance(node, ast.BinOp) and isinstance(node.op, ast.Pow) and isinstance(node.right, ast.Constant) and node.right.value == 2:
+        return f"(.sq {_aexpr(node.left, deg)})"
+    if isinstance(node, ast.Call) and len(node.args) == 1 and not node.keywords:
+        f = ast.unparse(node.func)
+        if f in ("np.radians", "math.radians", "np.deg2rad"):
+            return f"(.radians {_aexpr(node.args[0], deg)})"
+        for nm in ("tan", "cos", "sin"):
+            if f in (f"np.{nm}", f"math.{nm}"):
+                return f"(.{nm} {_aexpr(node.args[0], deg)})"
+    return f"(.other {core.lean_str(ast.unparse(node)[:80])})"
+
+
+def _guard_chain(flow, store):
+    """[(kind, node)] from the function body down to `store`: enclosing `for`, enclosing `if` (kind 'if' when the store is in the
+    body, 'else' when in the orelse) and, in every block on the way, earlier `if t: continue/return/break` statements ('unless')"""
+    chain = []
+    st = store
+    blocks = {}
+    while st is not None:
+        b, k, parent = flow.where[id(st)]
+        if parent is None:
+            blk = flow.root
+        elif any(x is st for x in parent.body):
+            blk = parent.body
+        else:
+            blk = parent.orelse
+        here = []
+        for prev in blk[:k]:
+            if isinstance(prev, ast.If) and not prev.orelse and isinstance(prev.body[-1], (ast.Continue, ast.Return, ast.Break)):
+                here.append(("unless", prev.test))
+        if parent is not None:
+            if isinstance(parent, ast.If):
+                head = ("if" if blk is parent.body else "else", parent.test)
+            elif isinstance(parent, ast.For):
+                head = ("for", parent)
+            else:
+                head = ("block", parent)
+            chain = [head] + here + chain
+        else:
+            chain = here + chain
+        st = parent
+    return chain
+
+
+class _RoleNames(ast.NodeTransformer):
+    def __init__(self, m):
+        self.m = m
+
+    def visit_Name(self, n):
+        return ast.copy_location(ast.Name(id=self.m.get(n.id, n.id), ctx=n.ctx), n)
+
+
+def _site(src, key):
+    """admissibility site of one candidate kernel -> dict(dist2, proj, projCmp, lat2, coneCmp, coneRhs, stored, ball, mult, radius, chain, store)"""
+    fname = _FUNCS[key]
+    fn = _canon(src.find(REL, fname))
+    R = {k: f"a{v}" for k, v in _ROLES[key].items()}
+    flow = _Flow(fn)
+    flow.root = fn.body
+    found = {}
+
+    def scalar(name, st):
+        if key != "cpu":
+            return {"R": "r", "M": "m"}.get(next((k for k in ("R", "M") if R[k] == name), None))
+        if name in flow.binds and name not in flow.other and len(flow.binds[name]) == 1:
+            v = flow.binds[name][0].value
+            if ast.unparse(v) == f"{R['MAXNM']} / {R['VOXEL']}":
+                flow.lookup(name, st)
+                found["R"] = name
+                return "r"
+            ae = _aexpr(v, R["DEG"])
+            if ".other" not in ae:
+                flow.lookup(name, st)
+                found["M"], found["mult"] = name, ae
+                return "m"
+        return None
+    sym = _Sym(flow, R["P"], R["N"], scalar)
+    # ---- the statement that records a match
+    if key == "cpu":
+        stores = [n for n in ast.walk(fn) if isinstance(n, ast.Expr) and isinstance(n.value, ast.Call) and isinstance(n.value.func, ast.Attribute)
+                  and n.value.func.attr == "append" and len(n.value.args) == 1 and isinstance(n.value.args[0], ast.Tuple) and len(n.value.args[0].elts) == 3]
+        if len(stores) != 1:
+            raise core.AnchorMissing(f"{fname}: exactly one `<list>.append((dist, source, target))` expected, found {len(stores)}")
+        store = stores[0]
+        dnode, snode, tnode = store.value.args[0].elts
+    else:
+        def sub_store(arr):
+            ss = [n for n in ast.walk(fn) if isinstance(n, ast.Assign) and len(n.targets) == 1 and isinstance(n.targets[0], ast.Subscript)
+                  and isinstance(n.targets[0].value, ast.Name) and n.targets[0].value.id == arr]
+            if len(ss) != 1:
+                raise core.AnchorMissing(f"{fname}: exactly one store into parameter {arr} expected, found {len(ss)}")
+            return ss[0]
+        store, istore = sub_store(R["MD"]), sub_store(R["MI"])
+        if flow.where[id(store)][0] != flow.where[id(istore)][0]:
+            raise core.AnchorMissing(f"{fname}: distance and index are stored in different blocks")
+        dnode, tnode, snode = store.value, istore.value, None
+    chain = _guard_chain(flow, store)
+    tests = [(k, n) for k, n in chain if k in ("if", "else", "unless")]
+    plain = [n for k, n in tests if k == "if" and isinstance(n, ast.Compare) and len(n.ops) == 1]
+    fwd = [n for n in plain if isinstance(n.left, ast.Name) and isinstance(n.comparators[0], ast.Constant) and n.comparators[0].value == 0
+           and type(n.comparators[0].value) in (int, float)]
+    cone = [n for n in plain if isinstance(n.comparators[0], ast.BinOp)]
+    if len(fwd) != 1:
+        raise core.AnchorMissing(f"{fname}: the store is guarded by {len(fwd)} bare tests `<proj> <op> 0` (exactly one expected)")
+    if len(cone) != 1:
+        raise core.AnchorMissing(f"{fname}: the store is guarded by {len(cone)} bare tests `<lateral> <op> <product>` (exactly one expected)")
+    fwd, cone = fwd[0], cone[0]
+    ball_t = []
+    for n in plain:
+        if n is not fwd and n is not cone and isinstance(n.left, ast.Name) and isinstance(n.comparators[0], ast.Name) and scalar(n.comparators[0].id, store) == "r":
+            ball_t.append(n)
+    proj = sym.expr(fwd.left, store)
+    lat2 = sym.expr(cone.left, store)
+    rhs = sym.expr(cone.comparators[0], store)
+    stored = sym.sqrt_arg(dnode, store)
+    roles = {fwd.left.id: "PROJ"}
+    if isinstance(cone.left, ast.Name):
+        roles[cone.left.id] = "LAT2"
+    if isinstance(dnode, ast.Name):
+        roles[dnode.id] = "DIST"
+    if key == "cpu":
+        if ball_t:
+            raise core.AnchorMissing(f"{fname}: unexpected explicit distance test")
+        calls = [n for n in ast.walk(fn) if isinstance(n, ast.Call) and isinstance(n.func, ast.Attribute) and n.func.attr == "query_ball_point"]
+        ball = ".missing"
+        if len(calls) == 1 and len(calls[0].args) == 2 and not calls[0].keywords and isinstance(calls[0].args[1], ast.Name) \
+                and scalar(calls[0].args[1].id, store) == "r":
+            ball = ".kdtreeClosedBall"
+        dist2 = stored
+    else:
+        if len(ball_t) != 1:
+            raise core.AnchorMissing(f"{fname}: the store is guarded by {len(ball_t)} bare tests `<dist> <op> max_thickness_voxels` (exactly one expected)")
+        ball = f"(.cmp .{_CMP[type(ball_t[0].ops[0])]})"
+        dist2 = sym.sqrt_arg(ball_t[0].left, store)
+        roles[ball_t[0].left.id] = "DIST"
     nidx = {l[1] for l in sym.leaves if l[0] == "normals"}
     pidx = {l[1] for l in sym.leaves if l[0] == "points"}
     if len(nidx) != 1 or len(pidx) != 2 or not nidx <= pidx:
         raise core.AnchorMissing(f"{fname}: point/normal indices {sorted(pidx)}/{sorted(nidx)}")
     s_idx = next(iter(nidx))
     t_idx = next(iter(pidx - nidx))
-    # distance pre-filter
-    ballc = [n for n in ast.walk(fn) if isinstance(n, ast.Compare) and isinstance(n.left, ast.Name) and n.left.id == "dist"]
-    if ballc:
-        if len(ballc) != 1 or not (isinstance(ballc[0].comparators[0], ast.Name) and ballc[0].comparators[0].id == "max_thickness_voxels"):
-            raise core.AnchorMissing(f"{fname}: `dist <op> max_thickness_voxels` expected")
-        ball = f"(.cmp .{_CMP[type(ballc[0].ops[0])]})"
-    else:
-        calls = [n for n in ast.walk(fn) if isinstance(n, ast.Call) and isinstance(n.func, ast.Attribute) and n.func.attr == "query_ball_point"]
-        if len(calls) == 1 and len(calls[0].args) == 2 and ast.unparse(calls[0].args[1]) == "max_thickness_voxels" \
-                and ast.unparse(calls[0].args[0]) == "source_points" and not calls[0].keywords:
-            ball = ".kdtreeClosedBall"
+    roles[s_idx], roles[t_idx] = "SRC", "TGT"
+    for k, v in R.items():
+        roles[v] = k
+    for k in ("R", "M"):
+        if k in found:
+            roles[found[k]] = k
+    rn = _RoleNames(roles)
+
+    def show(node):
+        return " ".join(ast.unparse(rn.visit(copy.deepcopy(node))).split())
+    chain_txt = []
+    for k, n in chain:
+        if k == "for":
+            chain_txt.append(f"for {show(n.target)} in {show(n.iter)}")
+        elif k == "block":
+            chain_txt.append(type(n).__name__)
         else:
-            ball = ".missing"
-    r = dict(dist2=_rename(dist2, s_idx, t_idx), proj=_rename(proj, s_idx, t_idx), projCmp=_CMP[type(pj.ops[0])],
-             lat2=_rename(lat2, s_idx, t_idx), coneCmp=_CMP[type(cone.ops[0])], coneRhs=_rename(rhs, s_idx, t_idx), ball=ball)
-    return r
+            chain_txt.append(f"{k} {show(n)}")
+    b, k, parent = flow.where[id(store)]
+    blk = fn.body if parent is None else (parent.body if any(x is store for x in parent.body) else parent.orelse)
+    store_txt = [" ".join(x.split()) for x in _dump([rn.visit(copy.deepcopy(x)) for x in blk])]
+    out = dict(dist2=_rename(dist2, s_idx, t_idx), proj=_rename(proj, s_idx, t_idx), projCmp=_CMP[type(fwd.ops[0])],
+               lat2=_rename(lat2, s_idx, t_idx), coneCmp=_CMP[type(cone.ops[0])], coneRhs=_rename(rhs, s_idx, t_idx),
+               stored=_rename(stored, s_idx, t_idx), ball=ball, chain=chain_txt, store=store_txt)
+    if key == "cpu":
+        out["mult"] = found.get("mult")
+        out["radius"] = "max_thickness_nm/voxel_size" if "R" in found else None
+    return out
+
+
+def _gpu_scalars(src):
+    """measure_thickness_gpu: how the radius and the multiplier handed to the kernel (by position) are computed"""
+    fn = _canon(src.find(REL, _FUNCS["gpu"]))
+    R = {k: f"a{v}" for k, v in _ROLES["gpu"].items()}
+    flow = _Flow(fn)
+    flow.root = fn.body
+    calls = [(st, n) for st in ast.walk(fn) if isinstance(st, ast.Expr) for n in [st.value] if isinstance(n, ast.Call) and isinstance(n.func, ast.Subscript)
+             and ast.unparse(n.func.value) == _FUNCS["cuda"]]
+    if len(calls) != 1:
+        raise core.AnchorMissing("measure_thickness_gpu: exactly one kernel launch statement expected")
+    st, call = calls[0]
+    if call.keywords or len(call.args) != 10:
+        raise core.AnchorMissing("measure_thickness_gpu: the kernel launch does not pass 10 positional arguments")
+    out = {}
+    for role, pos in (("R", _ROLES["cuda"]["R"]), ("M", _ROLES["cuda"]["M"])):
+        a = call.args[pos]
+        if not isinstance(a, ast.Name):
+            raise core.AnchorMissing(f"launch argument {pos} is not a name")
+        out[role] = flow.lookup(a.id, st).value
+    radius = ast.unparse(out["R"])
+    radius = "max_thickness_nm/voxel_size" if radius == f"{R['MAXNM']} / {R['VOXEL']}" else radius.replace(" ", "")
+    return dict(mult=_aexpr(out["M"], R["DEG"]), radius=radius)
+
+
+def _body(src, key):
+    return _dump(_canon(src.find(REL, _FUNCS[key])).body)
+
+
+def _sig(src, key):
+    """decorators and parameters; the public functions keep their parameter names (keywords are API), the internal kernels /
+    assignment loops are called positionally: their parameters are shown by position only"""
+    fn = src.find(REL, _FUNCS[key])
+    deco = [ast.unparse(d) for d in fn.decorator_list]
+    if key not in ("cpu", "gpu", "top"):
+        fn = copy.deepcopy(fn)
+        for k, a in enumerate(fn.args.posonlyargs + fn.args.args):
+            a.arg = f"a{k}"
+    sig = _signature(fn)
+    if key == "top":  # only the parameters the statement depends on
+        sig = [x for x in sig if x.split("=")[0] in ("max_thickness", "max_angle", "direction", "use_gpu")]
+    return deco, sig
+
+
+def _dispatch(src):
+    """measure_membrane_thickness: which of ITS parameters it hands to which keyword of the two implementations (locals shown as <local>)"""
+    fn = src.find(REL, _FUNCS["top"])
+    params = set(_param_names(fn))
+    out = []
+    for name in (_FUNCS["gpu"], _FUNCS["cpu"]):
+        calls = [n for n in ast.walk(fn) if isinstance(n, ast.Call) and isinstance(n.func, ast.Name) and n.func.id == name]
+        if len(calls) != 1:
+            raise core.AnchorMissing(f"measure_membrane_thickness: exactly one call of {name} expected")
+        c = calls[0]
+        show = lambda v: v.id if isinstance(v, ast.Name) and v.id in params else ("<local>" if isinstance(v, ast.Name) else ast.unparse(v))
+        out.append(f"{name}: {len(c.args)} positional; " + ", ".join(f"{k.arg}={show(k.value)}" for k in c.keywords))
+    return out
+
+
+def _caps(src):
+    """max_matches_per_point: default of measure_thickness_cpu, constant handed to the kernel (10th launch argument) in measure_thickness_gpu"""
+    fn = src.find(REL, _FUNCS["cpu"])
+    a = fn.args
+    names = [x.arg for x in a.args]
+    dfl = dict(zip(names[len(names) - len(a.defaults):], a.defaults))
+    pos = _ROLES["cpu"]["CAP"]
+    if pos >= len(names) or names[pos] not in dfl or not isinstance(dfl[names[pos]], ast.Constant) or type(dfl[names[pos]].value) is not int:
+        raise core.AnchorMissing("measure_thickness_cpu: integer default of the 11th parameter (max_matches_per_point)")
+    cpu = dfl[names[pos]].value
+    g = _canon(src.find(REL, _FUNCS["gpu"]))
+    flow = _Flow(g)
+    flow.root = g.body
+    calls = [(st, st.value) for st in ast.walk(g) if isinstance(st, ast.Expr) and isinstance(st.value, ast.Call) and isinstance(st.value.func, ast.Subscript)
+             and ast.unparse(st.value.func.value) == _FUNCS["cuda"]]
+    if len(calls) != 1 or len(calls[0][1].args) != 10:
+        raise core.AnchorMissing("measure_thickness_gpu: kernel launch")
+    st, call = calls[0]
+    v = call.args[_ROLES["cuda"]["CAP"]]
+    if isinstance(v, ast.Name):
+        v = flow.lookup(v.id, st).value
+    if not isinstance(v, ast.Constant) or type(v.value) is not int:
+        raise core.AnchorMissing("measure_thickness_gpu: the 10th launch argument is not an integer constant")
+    return [cpu, v.value]
 
 
 def _lean_site(name, s):
     if s is None:  # anchor missing: a site that satisfies none of the theorems
         z = "(.var .r)"
-        return (f"def {name} : Site := ⟨{z}, {z}, .ne, {z}, .ne, {z}⟩\n" f"def {name}Ball : Ball := .missing\n")
+        return (f"def {name} : Site := ⟨{z}, {z}, .ne, {z}, .ne, {z}⟩\ndef {name}Stored : Expr := {z}\ndef {name}Ball : Ball := .missing\n"
+                f"def {name}Chain : List String := []\ndef {name}Store : List String := []\n")
     return (f"def {name} : Site :=\n  {{ dist2 := {_lean_expr(s['dist2'])}\n    proj := {_lean_expr(s['proj'])}\n    projCmp := .{s['projCmp']}\n"
             f"    lat2 := {_lean_expr(s['lat2'])}\n    coneCmp := .{s['coneCmp']}\n    coneRhs := {_lean_expr(s['coneRhs'])} }}\n"
-            f"def {name}Ball : Ball := {s['ball']}\n")
+            f"/-- argument of the square root whose value is recorded as the distance of the match -/\n"
+            f"def {name}Stored : Expr := {_lean_expr(s['stored'])}\n"
+            f"def {name}Ball : Ball := {s['ball']}\n"
+            f"/-- guards of the statement that records a match, from the function body down (roles substituted for names) -/\n"
+            f"def {name}Chain : List String := {_lean_list(s['chain'])}\n"
+            f"/-- the block that records a match -/\n"
+            f"def {name}Store : List String := {_lean_list(s['store'])}\n")
 
 
-def _aexpr(node):
-    if isinstance(node, ast.Name) and node.id == "max_angle_degrees":
-        return ".deg"
-    if isinstance(node, ast.BinOp) and isinstance(node.op, ast.Pow) and isinstance(node.right, ast.Constant) and node.right.value == 2:
-        return f"(.sq {_aexpr(node.left)})"
-    if isinstance(node, ast.Call) and len(node.args) == 1 and not node.keywords:
-        f = ast.unparse(node.func)
-        if f in ("np.radians", "math.radians", "np.deg2rad"):
-            return f"(.radians {_aexpr(node.args[0])})"
-        for nm in ("tan", "cos", "sin"):
-            if f in (f"np.{nm}", f"math.{nm}"):
-                return f"(.{nm} {_aexpr(node.args[0])})"
-    return f"(.other {core.lean_str(ast.unparse(node)[:80])})"
-
-
-def _mult(src, fname):
-    fn = src.find(REL, fname)
-    a = [n for n in ast.walk(fn) if isinstance(n, ast.Assign) and len(n.targets) == 1 and isinstance(n.targets[0], ast.Name) and n.targets[0].id == "max_angle_cos"]
-    if len(a) != 1:
-        raise core.AnchorMissing(f"{fname}: exactly one assignment to max_angle_cos expected")
-    return _aexpr(a[0].value)
-
-
-def _radius(src, fname):
-    fn = src.find(REL, fname)
-    a = [n for n in ast.walk(fn) if isinstance(n, ast.Assign) and len(n.targets) == 1 and isinstance(n.targets[0], ast.Name) and n.targets[0].id == "max_thickness_voxels"]
-    if len(a) != 1:
-        raise core.AnchorMissing(f"{fname}: assignment to max_thickness_voxels")
-    return core.norm_expr(a[0].value)
-
-
-def _gpu_call_positions(src):
-    """the GPU driver passes radius and multiplier in the kernel's parameter positions"""
-    kern = src.find(REL, "find_all_possible_matches_kernel")
-    params = [a.arg for a in kern.args.args]
-    fn = src.find(REL, "measure_thickness_gpu")
-    calls = [n for n in ast.walk(fn) if isinstance(n, ast.Call) and isinstance(n.func, ast.Subscript)
-             and ast.unparse(n.func.value) == "find_all_possible_matches_kernel"]
-    if len(calls) != 1:
-        raise core.AnchorMissing("measure_thickness_gpu: kernel launch not found")
-    args = [ast.unparse(a) for a in calls[0].args]
-    if len(args) != len(params):
-        raise core.AnchorMissing("kernel launch arity")
-    return all(args[params.index(p)] == p for p in ("max_thickness_voxels", "max_angle_cos"))
-
-
-def _assign_anchors(src, fname, loopvars):
-    """process_matches_*: plain ascending sort of (dist, source, target) tuples, first-come one-to-one assignment, voxel scaling"""
-    fn = src.find(REL, fname)
-    sorts = [n for n in ast.walk(fn) if isinstance(n, ast.Call) and isinstance(n.func, ast.Attribute) and n.func.attr in ("sort",)]
-    sorted_calls = [n for n in ast.walk(fn) if isinstance(n, ast.Call) and ast.unparse(n.func) == "sorted"]
-    if len(sorts) != 1 or sorted_calls:
-        raise core.AnchorMissing(f"{fname}: exactly one .sort() expected")
-    plain = (not sorts[0].args) and (not sorts[0].keywords)
-    lst = ast.unparse(sorts[0].func.value)
-    loops = [n for n in ast.walk(fn) if isinstance(n, ast.For) and ast.unparse(n.iter) == lst]
-    if len(loops) != 1:
-        raise core.AnchorMissing(f"{fname}: loop over the sorted list")
-    lp = loops[0]
-    if sorts[0].lineno > lp.lineno:
-        raise core.AnchorMissing(f"{fname}: sort after the loop")
-    tv = [e.id for e in lp.target.elts] if isinstance(lp.target, ast.Tuple) else []
-    if len(tv) != 3:
-        raise core.AnchorMissing(f"{fname}: loop does not unpack three names")
-    d, s, t = tv
-    ifs = [n for n in lp.body if isinstance(n, ast.If)]
-    if len(lp.body) != 1 or len(ifs) != 1 or ifs[0].orelse:
-        raise core.AnchorMissing(f"{fname}: loop body is not a single if")
-    cond = ifs[0].test
-    ok_cond = False
-    if isinstance(cond, ast.BoolOp) and isinstance(cond.op, ast.And) and len(cond.values) == 2:
-        a, b = cond.values
-        def notin(x, v):
-            return isinstance(x, ast.Compare) and len(x.ops) == 1 and isinstance(x.ops[0], ast.NotIn) and isinstance(x.left, ast.Name) and x.left.id == v \
-                and isinstance(x.comparators[0], ast.Name)
-        if notin(a, s) and notin(b, t):
-            sset, tset = a.comparators[0].id, b.comparators[0].id
-            body = [ast.unparse(x).replace(" ", "") for x in ifs[0].body]
-            need = [f"thickness_results[{s}]={d}", f"valid_mask[{s}]=True", f"point_pairs[{s}]={t}", f"{sset}.add({s})", f"{tset}.add({t})"]
-            ok_cond = sset != tset and sorted(body) == sorted(need)
-    # sets start empty
-    inits = {ast.unparse(n.targets[0]): ast.unparse(n.value) for n in fn.body if isinstance(n, ast.Assign) and len(n.targets) == 1}
-    sets_empty = ok_cond and inits.get(sset) == "set()" and inits.get(tset) == "set()"
-    scale = [n for n in fn.body if isinstance(n, ast.Assign) and ast.unparse(n.targets[0]) == "thickness_results" and n.lineno > lp.lineno]
-    ok_scale = len(scale) == 1 and core.norm_expr(scale[0].value) in ("thickness_results*voxel_size", "voxel_size*thickness_results")
-    ret = [n for n in fn.body if isinstance(n, ast.Return)]
-    ok_ret = len(ret) == 1 and core.norm_expr(ret[0].value) == "(thickness_results,valid_mask,point_pairs)"
-    return dict(plain=plain, cond=ok_cond and sets_empty, scale=ok_scale, ret=ok_ret)
-
-
-def _cpu_flow(src):
-    fn = src.find(REL, "measure_thickness_cpu")
-    txt = {}
-    # direction swap
-    ifs = [n for n in fn.body if isinstance(n, ast.If) and core.norm_expr(n.test) in ("direction=='2to1'", 'direction=="2to1"')]
-    if len(ifs) != 1:
-        raise core.AnchorMissing("measure_thickness_cpu: `if direction == '2to1'`")
-    def asg(body):
-        a = [core.norm_expr(x) for x in body if isinstance(x, ast.Assign)]
-        return a
-    txt["dir"] = asg(ifs[0].body) == ["source_mask,target_mask=(surface2_mask,surface1_mask)"] and \
-        asg(ifs[0].orelse) == ["source_mask,target_mask=(surface1_mask,surface2_mask)"]
-    whole = ast.unparse(fn).replace(" ", "")
-    txt["idx"] = all(s in whole for s in ("target_indices=np.where(target_mask)[0]", "source_indices=np.where(source_mask)[0]",
-                                           "target_points=points[target_indices]", "source_points=points[source_indices]",
-                                           "target_tree=ScipyKDTree(target_points)", "source_idx=source_indices[i]",
-                                           "target_idx=target_indices[n]", "forninneighbors:",
-                                           "fori,neighborsinenumerate(neighbor_lists):"))
-    app = [n for n in ast.walk(fn) if isinstance(n, ast.Call) and isinstance(n.func, ast.Attribute) and n.func.attr == "append"]
-    txt["tuple"] = len(app) == 1 and core.norm_expr(app[0]) == "flat_matches.append((dist,source_idx,target_idx))"
-    txt["call"] = "thickness_results,valid_mask,point_pairs=process_matches_cpu2cpu(flat_matches,n_points,voxel_size)" in whole \
-        and "return(thickness_results,valid_mask,point_pairs)" in whole.replace("returnthickness_results,valid_mask,point_pairs", "return(thickness_results,valid_mask,point_pairs)")
-    cap = None
-    a = fn.args
-    names = [x.arg for x in a.args]
-    defaults = dict(zip(names[len(names) - len(a.defaults):], a.defaults))
-    if "max_matches_per_point" in defaults and isinstance(defaults["max_matches_per_point"], ast.Constant):
-        cap = int(defaults["max_matches_per_point"].value)
-    if cap is None:
-        raise core.AnchorMissing("measure_thickness_cpu: default of max_matches_per_point")
-    txt["cap"] = cap
-    txt["capcmp"] = "ifvalid_matches>=max_matches_per_point:break" in whole.replace("\n", "")
-    return txt
+def _lean_list(xs, indent="  "):
+    if not xs:
+        return "[]"
+    return "[\n" + ",\n".join(indent + core.lean_str(x) for x in xs) + "]"
 
 
 def translate(src):
-    s_cpu = src.anchor("cone-site:measure_thickness_cpu", lambda: _site(src, "measure_thickness_cpu"))
-    s_nb = src.anchor("cone-site:find_matches_parallel(numba)", lambda: _site(src, "find_matches_parallel"))
-    s_cu = src.anchor("cone-site:find_all_possible_matches_kernel(CUDA)", lambda: _site(src, "find_all_possible_matches_kernel"))
-    m_cpu = src.anchor("multiplier:measure_thickness_cpu", lambda: _mult(src, "measure_thickness_cpu"))
-    m_gpu = src.anchor("multiplier:measure_thickness_gpu", lambda: _mult(src, "measure_thickness_gpu"))
-    r_cpu = src.anchor("radius:measure_thickness_cpu", lambda: _radius(src, "measure_thickness_cpu"))
-    r_gpu = src.anchor("radius:measure_thickness_gpu", lambda: _radius(src, "measure_thickness_gpu"))
-    gpos = src.anchor("gpu-launch-argument-positions", lambda: _gpu_call_positions(src))
-    a_cpu = src.anchor("assignment:process_matches_cpu2cpu", lambda: _assign_anchors(src, "process_matches_cpu2cpu", None))
-    a_gpu = src.anchor("assignment:process_matches_gpu2cpu", lambda: _assign_anchors(src, "process_matches_gpu2cpu", None))
-    flow = src.anchor("flow:measure_thickness_cpu", lambda: _cpu_flow(src))
-    a_cpu = a_cpu if isinstance(a_cpu, dict) else {}
-    a_gpu = a_gpu if isinstance(a_gpu, dict) else {}
-    flow = flow if isinstance(flow, dict) else {}
-    # anchors store str(dict); keep evidence small
-    for a in src.anchors:
+    sites = {k: src.anchor(f"site:{_FUNCS[k]}", lambda k=k: _site(src, k)) for k in ("cpu", "numba", "cuda")}
+    sites = {k: (v if isinstance(v, dict) else None) for k, v in sites.items()}
+    gsc = src.anchor("scalars:measure_thickness_gpu", lambda: _gpu_scalars(src))
+    gsc = gsc if isinstance(gsc, dict) else {}
+    bodies = {k: src.anchor(f"body:{_FUNCS[k]}", lambda k=k: _body(src, k)) or [] for k in ("cuda", "gpu2cpu", "gpu", "numba", "cpu", "cpu2cpu")}
+    sigs = {k: src.anchor(f"signature:{_FUNCS[k]}", lambda k=k: _sig(src, k)) or ([], []) for k in ("cuda", "gpu2cpu", "gpu", "numba", "cpu", "cpu2cpu", "top")}
+    disp = src.anchor("dispatch:measure_membrane_thickness", lambda: _dispatch(src)) or []
+    caps = src.anchor("max_matches_per_point", lambda: _caps(src)) or [CAP, CAP]  # missing -> the documented value (anchorsOk is false then)
+    if sites["cpu"] is not None and (sites["cpu"].get("mult") is None or sites["cpu"].get("radius") is None):
+        src.anchors.append(dict(name="scalars:measure_thickness_cpu", ok=False, value=None, detail="radius / multiplier not used by the admissibility test"))
+    for a in src.anchors:  # anchors store str(dict); keep the evidence small
         if isinstance(a.get("value"), str) and len(a["value"]) > 400:
             a["value"] = a["value"][:400] + "..."
+        if isinstance(a.get("value"), list) and len(str(a["value"])) > 1500:
+            a["value"] = str(a["value"])[:1500] + "..."
     b = lambda v: "true" if v else "false"
-    return f"""-- GENERATED by harness/props/c20.py from {REL}; do not edit
-import CryoCat.Model.C20_Expr
-namespace CryoCat.Gen.C20
-open CryoCat.C20
-def anchorsOk : Bool := {b(src.ok)}
-{_lean_site("siteCpu", s_cpu if isinstance(s_cpu, dict) else None)}{_lean_site("siteNumba", s_nb if isinstance(s_nb, dict) else None)}{_lean_site("siteCuda", s_cu if isinstance(s_cu, dict) else None)}/-- `max_angle_cos = ...` in measure_thickness_cpu / measure_thickness_gpu -/
-def multCpu : AExpr := {m_cpu if m_cpu else '(.other "missing")'}
-def multGpu : AExpr := {m_gpu if m_gpu else '(.other "missing")'}
-/-- `max_thickness_voxels = ...` -/
-def radiusCpu : String := {core.lean_str(r_cpu or "missing")}
-def radiusGpu : String := {core.lean_str(r_gpu or "missing")}
-def gpuLaunchPositionsOk : Bool := {b(gpos)}
-/-- process_matches_cpu2cpu / gpu2cpu: `list.sort()` without key/reverse on (dist, source, target) tuples -/
-def sortPlainCpu : Bool := {b(a_cpu.get("plain"))}
-def sortPlainGpu : Bool := {b(a_gpu.get("plain"))}
-/-- loop body is `if s not in S and t not in T: record; S.add(s); T.add(t)` with S, T initially empty -/
-def firstComeCpu : Bool := {b(a_cpu.get("cond"))}
-def firstComeGpu : Bool := {b(a_gpu.get("cond"))}
-/-- `thickness_results = thickness_results * voxel_size` after the loop, and the triple is returned -/
-def scaleByVoxelCpu : Bool := {b(a_cpu.get("scale") and a_cpu.get("ret"))}
-def scaleByVoxelGpu : Bool := {b(a_gpu.get("scale") and a_gpu.get("ret"))}
-/-- measure_thickness_cpu: direction '2to1' swaps the masks; sources/targets are the mask members; tuples are (dist, source_idx, target_idx) -/
-def directionSwapsMasks : Bool := {b(flow.get("dir"))}
-def indexPlumbingOk : Bool := {b(flow.get("idx") and flow.get("call"))}
-def tupleIsDistSourceTarget : Bool := {b(flow.get("tuple"))}
-def capDefault : Nat := {flow.get("cap", 0)}
-def capIsBreakAtGe : Bool := {b(flow.get("capcmp"))}
-end CryoCat.Gen.C20
-"""
+    cpu = sites["cpu"] or {}
+    L = [f"-- GENERATED by harness/props/c20.py from {REL}; do not edit", "import CryoCat.Model.C20_Expr", "namespace CryoCat.Gen.C20",
+         "open CryoCat.C20", f"def anchorsOk : Bool := {b(src.ok)}",
+         _lean_site("siteCpu", sites["cpu"]) + _lean_site("siteNumba", sites["numba"]) + _lean_site("siteCuda", sites["cuda"]) +
+         "/-- the cone multiplier: in measure_thickness_cpu the scalar of the cone test, in measure_thickness_gpu the 9th launch argument -/",
+         f"def multCpu : AExpr := {cpu.get('mult') or '(.other \"missing\")'}",
+         f"def multGpu : AExpr := {gsc.get('mult') or '(.other \"missing\")'}",
+         "/-- the search radius: 2nd argument of query_ball_point / 8th launch argument -/",
+         f"def radiusCpu : String := {core.lean_str(cpu.get('radius') or 'missing')}",
+         f"def radiusGpu : String := {core.lean_str(gsc.get('radius') or 'missing')}"]
+    L += ["/-- max_matches_per_point: default of measure_thickness_cpu / constant of measure_thickness_gpu -/",
+          f"def capDefault : Nat := {caps[0]}", f"def capGpu : Nat := {caps[1]}"]
+    nm = dict(cuda="CudaKernel", gpu2cpu="Gpu2Cpu", gpu="MeasureGpu", numba="NumbaKernel", cpu="MeasureCpu", cpu2cpu="Cpu2Cpu", top="Top")
+    for k in ("cuda", "gpu2cpu", "gpu", "numba", "cpu", "cpu2cpu", "top"):
+        L.append(f"/-- {_FUNCS[k]}: decorators, parameters with defaults -/")
+        L.append(f"def deco{nm[k]} : List String := {_lean_list(sigs[k][0])}")
+        L.append(f"def sig{nm[k]} : List String := {_lean_list(sigs[k][1])}")
+    for k in ("cuda", "gpu2cpu", "gpu", "numba", "cpu", "cpu2cpu"):
+        L.append(f"/-- {_FUNCS[k]}: canonical body (parameters a<i> by position, locals v<j> by first binding, logging removed) -/")
+        L.append(f"def body{nm[k]} : List String := {_lean_list(bodies[k])}")
+    L.append("/-- measure_membrane_thickness: the two implementation calls -/")
+    L.append(f"def dispatch : List String := {_lean_list(disp)}")
+    L.append("end CryoCat.Gen.C20")
+    return "\n".join(L) + "\n"
 
 
 # ================================================================================ constants
-COUNT = {"quick": 250, "thorough": 2000, "search": 600}
+COUNT = {"quick": 200, "thorough": 2000, "search": 600}
 PARALLEL = False  # numba's thread pool does not survive vcheck's fork pool: forked workers deadlock once the parent has run a prange kernel
 os.environ.setdefault("NUMBA_NUM_THREADS", "2")  # 16 forked workers x prange threads
 CAP = 25
 REL_MARGIN = 1e-6      # distance of every decision from the ball / cone boundary (relative)
 TIE_MARGIN = 1e-9      # relative gap between candidate distances (float families)
 TH_TOL = 1e-6          # thickness is float32(dist) * float32(voxel): relative tolerance
+GPU_TH_TOL = 3e-6      # the GPU path computes the distance itself in float32
 ANGLE_EPS = 1e-4       # degrees, for the independent evaluation of the cone clause
 
 RULE = ("point sets of 20..600 points (search tier: 6..40): family 'sheets' = two sheets (flat, tilted or curved; separation h, "
@@ -351,8 +611,15 @@ RULE = ("point sets of 20..600 points (search tier: 6..40): family 'sheets' = tw
         "(exact float arithmetic: exact distance ties decided by index order, targets exactly on the search radius); voxel size "
         "0.3..3, max_thickness 0.75..1.8 x separation, max_angle 1..30 degrees, both directions; every decision kept a relative "
         "margin 1e-6 away from the ball/cone boundary and (float families) candidate distances 1e-9 apart; < 25 candidates per "
-        "source. Each case: measure_thickness_cpu, numba find_matches_parallel + process_matches_gpu2cpu, and re-runs on a "
-        "rigidly moved copy, a voxel-rescaled copy and the surface-swapped copy. non-trivial = at least 2 admissible pairs, at "
+        "source (corpus: exactly 24 and exactly 25). Call options: in ~35% of the cases the geometry is built so that max_thickness_nm / "
+        "max_angle_degrees / direction ARE the documented defaults (8.0, 5.0 CPU / 3.0 GPU, '1to2') and the keyword is left out; "
+        "max_matches_per_point passed in half of the cases. Each case: measure_thickness_cpu; numba find_matches_parallel + "
+        "process_matches_gpu2cpu; re-runs on a rigidly moved copy, a voxel-rescaled copy (maximum scaled along) and the surface-swapped "
+        "copy; 30%: the same data at another voxel size with the SAME max_thickness_nm (judged as an input of its own); 30%: cross-call "
+        "stream - the same caller-owned arrays, some labels cleared IN PLACE, go into a second and a third call (judged like the "
+        "first; all caller-owned arrays compared before/after every call); 45% of the cases with <= 200 points whose decisions "
+        "have float32 margins: the whole GPU path (measure_thickness_gpu + CUDA kernel + process_matches_gpu2cpu) executed by "
+        "numba's CUDA simulator in worker processes. non-trivial = at least 2 admissible pairs, at "
         "least one admissible pair refused because its source or target was taken, and at least one in-range forward target "
         "between the cone and 45 degrees; distinct = distinct case content")
 ASSUMPTIONS = [
@@ -362,9 +629,16 @@ ASSUMPTIONS = [
     "libm tan of Lean's Float.tan and numpy's np.tan agree to a few ulp (probed each run)",
     "thickness_results is float32: float32(dist) * float32(voxel) is compared with dist*voxel at relative tolerance 1e-6",
     "numba prange scheduling does not influence per-source candidate lists (each source writes its own row)",
-    "the CUDA kernel is never executed: it is tied only through the translator (expressions identical to the CPU/numba sites)",
+    "the CUDA kernel and measure_thickness_gpu are executed by numba's CUDA SIMULATOR (NUMBA_ENABLE_CUDASIM=1: the kernel body runs as Python, one "
+    "thread per grid index), never on a GPU: thread scheduling, device memory and the device compiler's float32/float64 promotion are not "
+    "observed. The GPU path rounds points and normals to float32; it is judged on the float32-rounded input (model at Float on the rounded "
+    "coordinates), only for cases whose decisions are 1e-4 (relative) away from every boundary and whose candidate distances are equal or "
+    "1e-5 apart, thickness tolerance 3e-6",
+    "the 25-candidate cap counts admissible matches in KD-tree order (CPU) / scan order (kernels), not nearest-first: with more than 25 admissible "
+    "targets per source the result depends on that order; this is outside the quantifier and not modelled (corpus documents 24 and 25)",
 ]
-TRUSTED = ["harness geometry used only to *generate* margins (props/c20.py _analyse) and for the independent angle/thickness evaluation in judge()"]
+TRUSTED = ["harness geometry used only to *generate* margins (props/c20.py _analyse) and for the independent angle/thickness evaluation in judge()",
+           "numba's CUDA simulator as the execution vehicle of the GPU path"]
 
 
 # ================================================================================ geometry helpers (generator side only)
@@ -455,26 +729,38 @@ def corpus():
             c = dict(c)
             c.setdefault("family", "corpus"); c.setdefault("shape", os.path.basename(p)[:-5])
             c.setdefault("motion", None); c.setdefault("k", None)
+            c.setdefault("gpu", len(c["lab"]) <= GPU_MAX_POINTS)
             c["meta"] = _meta(c)
             out.append(c)
     return out
 
 
+def _variants(case):
+    """the inputs derived from a case that are judged against the model: the case itself, the same data at another voxel size with
+    the SAME physical maximum thickness (`kv`)"""
+    out = [case]
+    if case.get("kv"):
+        out.append(dict(case, voxel=case["voxel"] * case["kv"]))
+    return out
+
+
 def _clean(case, rng, exact=False):
-    """unlabel targets until every decision is a margin away from a boundary, candidate distances are apart
-    (float families) and every source has < CAP candidates; then record the meta counts"""
+    """unlabel targets until every decision (of the case and of its `kv` variant) is a margin away from a boundary, candidate
+    distances are apart (float families) and every source has < CAP candidates; then fix the cross-call edit and record the meta counts"""
     lab = case["lab"]
     tbit = 1 if case["dir"] == "2to1" else 2
-    for _ in range(12):
-        A = _analyse(case)
-        si, ti, d, proj, lat2, rhs, adm, r = (A[k] for k in ("si", "ti", "d", "proj", "lat2", "rhs", "adm", "r"))
+    for _ in range(16):
         drop = set()
-        if d.size:
+        for var in _variants(case):
+            A = _analyse(var)
+            si, ti, d, proj, lat2, rhs, adm, r = (A[k] for k in ("si", "ti", "d", "proj", "lat2", "rhs", "adm", "r"))
+            if not d.size:
+                continue
             near = (d <= r * (1 + 10 * REL_MARGIN)) & (proj > 0)
             cone_close = near & (np.abs(lat2 - rhs) <= REL_MARGIN * (lat2 + rhs))
-            ball_close = (np.abs(d - r) <= REL_MARGIN * r) if not exact else np.zeros_like(adm)
+            ball_close = np.abs(d - r) <= REL_MARGIN * r
             if exact:  # exact families may sit exactly on the radius, but not a rounding error away from it
-                ball_close = (np.abs(d - r) <= REL_MARGIN * r) & (d != r)
+                ball_close = ball_close & (d != r)
             for a, b in zip(*np.where(cone_close | ball_close)):
                 drop.add(int(ti[b]))
             if not exact and not drop:
@@ -495,6 +781,15 @@ def _clean(case, rng, exact=False):
             break
         for t in drop:
             lab[t] &= ~tbit
+    else:
+        if case.get("kv"):  # could not be cleaned together with its variant: keep the plain case
+            case["kv"] = None
+            return _clean(case, rng, exact)
+    # cross-call edit: some labelled points lose their label in place before the second call (a subset of the pairs: still clean)
+    if case.get("edit") is not None:
+        cand = [i for i, l in enumerate(lab) if l]
+        kk = min(len(cand), rng.choice([1, 2, 3, max(1, len(cand) // 5)]))
+        case["edit"] = dict(unlabel=sorted(rng.sample(cand, kk))) if cand else None
     case["meta"] = _meta(case)
     return case
 
@@ -514,9 +809,37 @@ def _surface(kind, L, kappa):
     return f
 
 
+def _pre_options(rng, exact):
+    """call options chosen before the geometry: which arguments are left to the library's defaults (G1: the case is built so that the
+    value IS the documented default), whether the cap is passed, the GPU run, the second voxel size and the cross-call edit (G2)"""
+    o = dict(omit=[], deg=None, maxnm8=False)
+    if rng.random() < 0.35:
+        if not exact and rng.random() < 0.7:
+            o["maxnm8"] = True
+            o["omit"].append("maxnm")
+        if rng.random() < 0.7:  # max_angle_degrees: 5.0 is the CPU default, 3.0 the GPU default
+            o["deg"] = 5.0 if (exact or rng.random() < 0.6) else 3.0
+            o["omit"].append("deg")
+        if rng.random() < 0.7:
+            o["omit"].append("dir")  # left out only where the case's direction is '1to2' (the default)
+    o["pass_cap"] = rng.random() < 0.5
+    o["gpu"] = rng.random() < 0.45
+    o["kv"] = (rng.choice([2.0, 0.5]) if exact else rng.choice([1.25, 1.5, 0.8])) if rng.random() < 0.3 else None
+    o["edit"] = {} if rng.random() < 0.3 else None
+    return o
+
+
+def _options(case, o):
+    if o["maxnm8"]:  # max_thickness_nm = 8.0: the voxel size that makes it so (same radius in voxels)
+        r = case["maxnm"] / case["voxel"]
+        case["voxel"], case["maxnm"] = 8.0 / r, 8.0
+    case.update(omit=o["omit"], pass_cap=o["pass_cap"], gpu=o["gpu"] and len(case["lab"]) <= GPU_MAX_POINTS, kv=o["kv"], edit=o["edit"])
+
+
 def _gen_sheets(rng, nmin, nmax):
+    pre = _pre_options(rng, exact=False)
     n = rng.randint(nmin, nmax)
-    deg = float(rng.randint(1, 30)) if rng.random() < 0.4 else rng.uniform(1.0, 30.0)
+    deg = pre["deg"] or (float(rng.randint(1, 30)) if rng.random() < 0.4 else rng.uniform(1.0, 30.0))
     th = deg
     h = rng.uniform(3.0, 12.0)
     voxel = rng.choice([0.5, 1.0, 2.0, 0.78, 1.37]) if rng.random() < 0.4 else rng.uniform(0.3, 3.0)
@@ -591,6 +914,7 @@ def _gen_sheets(rng, nmin, nmax):
                 voxel=float(voxel), maxnm=float(r * voxel), deg=float(deg), dir=direction,
                 motion=dict(rotvec=[rng.gauss(0, 1.2) for _ in range(3)], shift=[rng.uniform(-50, 50) for _ in range(3)]),
                 k=rng.choice([0.5, 2.0, 4.0]))
+    _options(case, pre)
     return _clean(case, rng)
 
 
@@ -615,6 +939,7 @@ def _signed_perms():
 
 
 def _gen_grid(rng, nmin, nmax):
+    pre = _pre_options(rng, exact=True)
     n = rng.randint(nmin, min(nmax, 300))
     hz = rng.choice([2, 3, 4, 5, 6])
     side = max(3, int(math.sqrt(n)) + rng.randint(0, 3))
@@ -649,12 +974,13 @@ def _gen_grid(rng, nmin, nmax):
     rl = rng.choice([hz, hz + 0.5, 5.0 if hz in (3, 4) else hz + 1, math.sqrt(hz * hz + 1) + 0.25, hz + 2])
     r = float(np.float64(rl)) * scale
     r = round(r * 1024) / 1024  # dyadic
-    deg = float(rng.choice([5, 10, 15, 20, 25, 30, 12.5, 28]))
+    deg = pre["deg"] or float(rng.choice([5, 10, 15, 20, 25, 30, 12.5, 28]))
     M2 = rng.choice(_signed_perms())
     case = dict(family="grid", shape="lattice", pts=(P[order] + 0.0).tolist(), nrm=(Nn[order] + 0.0).tolist(), lab=[lab[i] for i in order],
                 voxel=float(voxel), maxnm=float(r * voxel), deg=deg, dir=direction,
                 motion=dict(matrix=M2.tolist(), shift=[float(rng.randint(-16, 16)) * scale for _ in range(3)]),
                 k=rng.choice([0.5, 2.0, 4.0]))
+    _options(case, pre)
     return _clean(case, rng, exact=True)
 
 
@@ -681,6 +1007,9 @@ def shrink(case):
         c["nrm"] = [case["nrm"][i] for i in idx]
         c["lab"] = [case["lab"][i] for i in idx]
         c.pop("meta", None)
+        if case.get("edit"):
+            pos = {old: new for new, old in enumerate(idx)}
+            c["edit"] = dict(unlabel=[pos[i] for i in case["edit"]["unlabel"] if i in pos])
         try:
             c["meta"] = _meta(c)
         except Exception:
@@ -696,15 +1025,16 @@ def shrink(case):
         if n <= 40:
             for i in range(n):
                 yield keep([j for j in range(n) if j != i])
-    for fld in ("motion", "k"):
-        if case.get(fld) is not None:
-            c = dict(case); c[fld] = None
+    for fld, simple in (("motion", None), ("k", None), ("kv", None), ("edit", None), ("gpu", False), ("omit", []), ("pass_cap", False)):
+        if case.get(fld):
+            c = dict(case); c[fld] = simple
             yield c
 
 
 def sample_view(case):
     return dict(family=case["family"], shape=case.get("shape"), n_points=len(case["lab"]), labels={str(k): case["lab"].count(k) for k in (0, 1, 2, 3)},
                 voxel=case["voxel"], maxnm=case["maxnm"], deg=case["deg"], dir=case["dir"], meta=case.get("meta"),
+                options=dict(omit=case.get("omit"), pass_cap=case.get("pass_cap"), gpu=case.get("gpu"), kv=case.get("kv"), k=case.get("k"), edit=case.get("edit")),
                 first_points=[dict(p=case["pts"][i], n=case["nrm"][i], lab=case["lab"][i]) for i in range(min(3, len(case["lab"])))])
 
 
@@ -714,16 +1044,239 @@ _LOG.addHandler(logging.NullHandler())
 _LOG.propagate = False
 _LOG.setLevel(logging.CRITICAL)
 
+# documented signature defaults (Props/C20.defaults_documented); a case may leave an argument out only where its value IS the default
+DOC_DEFAULTS = {"cpu": dict(maxnm=8.0, deg=5.0, dir="1to2", cap=25), "gpu": dict(maxnm=8.0, deg=3.0, dir="1to2")}
+_KW = dict(maxnm="max_thickness_nm", deg="max_angle_degrees", dir="direction", cap="max_matches_per_point")
 
-def _pairs(th, valid, pp):
+
+def _kwargs(path, vals, omit):
+    """keyword arguments of one call: an argument named in `omit` is left out when its value equals the documented default"""
+    kw, left_out = {}, []
+    for k, v in vals.items():
+        if k in omit and DOC_DEFAULTS[path].get(k) == v:
+            left_out.append(k)
+        else:
+            kw[_KW[k]] = v
+    return kw, left_out
+
+
+def _typed(a):
+    """values of a returned array WITHOUT numeric coercion: python scalars for numeric / bool dtypes, repr text otherwise"""
+    a = np.asarray(a)
+    if a.dtype.kind in "fiub":
+        return a.tolist()
+    return [repr(x) for x in a.tolist()]
+
+
+def _pairs(ret):
+    """canonical observation of a returned (thickness_results, valid_mask, point_pairs) triple; records what came back (G3)"""
+    if not (isinstance(ret, tuple) and len(ret) == 3):
+        return dict(shape_error=f"returned {type(ret).__name__}" + (f" of length {len(ret)}" if hasattr(ret, "__len__") else ""))
+    th, valid, pp = ret
+    types = [type(x).__name__ for x in ret]
+    if not all(isinstance(x, np.ndarray) for x in ret):
+        return dict(shape_error=f"returned types {types}")
+    o = dict(types=types, dtype=str(th.dtype), valid_dtype=str(valid.dtype), pp_dtype=str(pp.dtype), n=int(len(th)), shapes=[list(x.shape) for x in ret])
+    if valid.dtype.kind != "b" or th.dtype.kind not in "fiu" or pp.dtype.kind not in "iu" or not (th.shape == valid.shape == pp.shape) or th.ndim != 1:
+        o["untyped"] = dict(th=_typed(th)[:50], valid=_typed(valid)[:50], pp=_typed(pp)[:50])
+        return o
     idx = np.where(valid)[0]
-    return dict(pairs=[[int(s), int(pp[s])] for s in idx], th=[float(th[s]) for s in idx],
-                clean=bool(np.all(th[~valid] == 0) and np.all(pp[~valid] == 0)), dtype=str(th.dtype), n=int(len(th)))
+    o.update(pairs=[[int(s), int(pp[s])] for s in idx], th=[th[s].item() for s in idx],
+             clean=bool(np.all(th[~valid] == 0) and np.all(pp[~valid] == 0)))
+    return o
 
 
-def _cpu(memthick, P, N, m1, m2, voxel, maxnm, deg, direction):
-    th, valid, pp = memthick.measure_thickness_cpu(P, N, m1, m2, voxel, maxnm, deg, direction, logger=_LOG)
-    return _pairs(th, valid, pp)
+def _snap(*arrs):
+    return [a.copy() for a in arrs]
+
+
+def _same(snap, *arrs):
+    return all(a.dtype == b.dtype and a.shape == b.shape and np.array_equal(a, b) for a, b in zip(snap, arrs))
+
+
+def _cpu(memthick, P, N, m1, m2, voxel, vals, omit=()):
+    """one call of measure_thickness_cpu on caller-owned arrays; the arrays are compared before / after (G2)"""
+    kw, left = _kwargs("cpu", vals, omit)
+    before = _snap(P, N, m1, m2)
+    o = _pairs(memthick.measure_thickness_cpu(P, N, m1, m2, voxel, logger=_LOG, **kw))
+    o["inputs_unchanged"] = _same(before, P, N, m1, m2)
+    o["omitted"] = left
+    return o
+
+
+# ---- the GPU path, executed under numba's CUDA simulator in worker processes (NUMBA_ENABLE_CUDASIM=1 must be set before numba is imported)
+GPU_MAX_POINTS = 200
+GPU_WORKERS = 4
+
+
+def _gpu_worker():
+    """worker loop: one JSON request per line -> one JSON observation per line"""
+    import sys, traceback
+    core.use_repo()
+    from cryocat import memthick
+    from numba import cuda
+    out = sys.stdout
+    sys.stdout = sys.stderr  # anything the library prints must not corrupt the protocol
+    out.write(json.dumps(dict(ready=True, simulator=bool(getattr(cuda, "simulator", None) is not None or os.environ.get("NUMBA_ENABLE_CUDASIM") == "1"))) + "\n")
+    out.flush()
+    for line in sys.stdin:
+        q = json.loads(line)
+        try:
+            P = np.ascontiguousarray(np.asarray(q["pts"], dtype=np.float64).reshape(-1, 3))
+            N = np.ascontiguousarray(np.asarray(q["nrm"], dtype=np.float64).reshape(-1, 3))
+            m1, m2 = np.asarray(q["m1"], dtype=bool), np.asarray(q["m2"], dtype=bool)
+            spy = {}
+            real = memthick.process_matches_gpu2cpu
+
+            def spying(md, mi, mc, n_points, cap, voxel_size, *a, **k):
+                spy.update(md=np.array(md), mi=np.array(mi), mc=np.array(mc), cap=int(cap), n=int(n_points))
+                return real(md, mi, mc, n_points, cap, voxel_size, *a, **k)
+            memthick.process_matches_gpu2cpu = spying
+            try:
+                kw, left = _kwargs("gpu", q["vals"], q.get("omit", ()))
+                before = _snap(P, N, m1, m2)
+                o = _pairs(memthick.measure_thickness_gpu(P, N, m1, m2, q["voxel"], logger=_LOG, **kw))
+                o["inputs_unchanged"] = _same(before, P, N, m1, m2)
+                o["omitted"] = left
+            finally:
+                memthick.process_matches_gpu2cpu = real
+            if spy and spy["md"].dtype.kind == "f" and spy["mi"].dtype.kind in "iu" and spy["mc"].dtype.kind in "iu":
+                n, cap = spy["n"], spy["cap"]
+                cnt = [int(c) for c in spy["mc"][:n]]
+                o["cands"] = [[s, int(spy["mi"][s * cap + j]), float(spy["md"][s * cap + j])] for s in range(min(n, len(cnt))) for j in range(max(0, min(cnt[s], cap)))]
+                o["cap"] = cap
+                o["counts_over_cap"] = int(sum(1 for c in cnt if c > cap or c < 0))
+                o["md_dtype"] = str(spy["md"].dtype)
+        except Exception as e:
+            where = ""
+            for fr in reversed(traceback.extract_tb(e.__traceback__)):
+                if "/cryocat/" in fr.filename:
+                    where = f"{os.path.basename(fr.filename)}:{fr.lineno}"
+                    break
+            o = {"error": f"{type(e).__name__}: {str(e)[:300]}", "where": where}
+        out.write(json.dumps(o) + "\n")
+        out.flush()
+
+
+class _GpuSim:
+    """pool of simulator workers; submit() returns at once, collect() waits for that job"""
+
+    def __init__(self):
+        self.idle, self.procs, self.jobs, self.pool, self.seq, self.started = None, [], {}, None, 0, 0
+
+    def _start(self):
+        import subprocess, sys
+        env = dict(os.environ, NUMBA_ENABLE_CUDASIM="1", NUMBA_NUM_THREADS="1", CRYOCAT_REPO=core.REPO)
+        code = f"import sys; sys.path.insert(0, {os.path.dirname(os.path.dirname(os.path.abspath(__file__)))!r}); from props import c20; c20._gpu_worker()"
+        p = subprocess.Popen([sys.executable, "-W", "ignore", "-c", code], stdin=subprocess.PIPE, stdout=subprocess.PIPE, stderr=subprocess.DEVNULL, text=True, env=env)
+        self.procs.append(p)
+        hello = p.stdout.readline()
+        if not hello or not json.loads(hello).get("ready"):
+            raise RuntimeError("CUDA simulator worker did not start")
+        return p
+
+    def _roundtrip(self, payload):
+        import queue
+        try:
+            try:
+                p = self.idle.get_nowait()
+            except queue.Empty:
+                p = self._start()
+        except Exception as e:
+            return {"error": f"simulator worker unavailable: {type(e).__name__}: {e}", "where": ""}
+        try:
+            p.stdin.write(payload + "\n")
+            p.stdin.flush()
+            line = p.stdout.readline()
+            if not line:
+                raise RuntimeError("worker died")
+            res = json.loads(line)
+        except Exception as e:
+            try:
+                p.kill()
+            except Exception:
+                pass
+            return {"error": f"simulator worker failed: {type(e).__name__}: {e}", "where": ""}
+        self.idle.put(p)
+        return res
+
+    def submit(self, payload):
+        import queue, atexit
+        from concurrent.futures import ThreadPoolExecutor
+        if self.pool is None:
+            self.idle = queue.Queue()
+            self.pool = ThreadPoolExecutor(GPU_WORKERS)
+            atexit.register(self.close)
+        self.seq += 1
+        self.jobs[self.seq] = self.pool.submit(self._roundtrip, json.dumps(payload))
+        return self.seq
+
+    def collect(self, token):
+        f = self.jobs.pop(token, None)
+        return None if f is None else f.result()
+
+    def close(self):
+        for p in self.procs:
+            try:
+                p.stdin.close()
+                p.kill()
+            except Exception:
+                pass
+        self.procs = []
+
+
+_GPUSIM = _GpuSim()
+
+
+def _case32(case):
+    """the input as the GPU path sees it: coordinates and normals rounded to float32"""
+    c = dict(case)
+    c["pts"] = np.asarray(case["pts"], dtype=np.float64).astype(np.float32).astype(np.float64).tolist()
+    c["nrm"] = np.asarray(case["nrm"], dtype=np.float64).astype(np.float32).astype(np.float64).tolist()
+    return c
+
+
+def _gpu_eligible(case):
+    """float32 arithmetic of the kernel cannot flip a decision: every decision of the float32-rounded input is 1e-4 (relative) away
+    from its boundary and candidate distances are equal or 1e-5 apart"""
+    if len(case["lab"]) > GPU_MAX_POINTS:
+        return False
+    A = _analyse(_case32(case))
+    d, proj, lat2, rhs, adm, r = (A[k] for k in ("d", "proj", "lat2", "rhs", "adm", "r"))
+    if not d.size:
+        return True
+    m = 1e-4
+    near = (d <= r * (1 + m)) & (d > 0)
+    if np.any((np.abs(d - r) <= m * r) & (d != r)):
+        return False
+    # lattice data (coordinates exact in float32, axis normals): a projection that is exactly 0 is exactly 0 in float32 as well
+    lattice = bool(np.all(np.asarray(case["pts"], dtype=np.float64) * 1024 % 1 == 0) and np.all(np.isin(np.asarray(case["nrm"], dtype=np.float64), (0.0, 1.0, -1.0))))
+    if np.any(near & (np.abs(proj) <= 1e-5 * d) & ~((proj == 0) & lattice)):
+        return False
+    if np.any(near & (proj > 0) & (np.abs(lat2 - rhs) <= m * (lat2 + rhs))):
+        return False
+    dd = np.sort(d[adm])
+    gaps = np.diff(dd)
+    if np.any((gaps > 0) & (gaps <= 1e-5 * dd[1:])):
+        return False
+    if adm.size and int(adm.sum(1).max()) > CAP:
+        return False
+    return True
+
+
+def _resolve_gpu(obs):
+    g = obs.get("gpu")
+    if isinstance(g, dict) and "pending" in g:
+        res = _GPUSIM.collect(g["pending"])
+        obs["gpu"] = res if res is not None else {"error": "simulator job lost (observation resolved in another process)", "where": ""}
+
+
+def _apply_edit(case, lab):
+    """labels after the in-place edit of a cross-call case"""
+    lab = list(lab)
+    for i in case["edit"]["unlabel"]:
+        lab[i] = 0
+    return lab
 
 
 def run_impl(case):
@@ -732,7 +1285,16 @@ def run_impl(case):
     N = np.ascontiguousarray(np.asarray(case["nrm"], dtype=np.float64).reshape(-1, 3))
     m1, m2 = _masks(case)
     voxel, maxnm, deg, direction = case["voxel"], case["maxnm"], case["deg"], case["dir"]
-    obs = {"cpu": _cpu(memthick, P, N, m1, m2, voxel, maxnm, deg, direction)}
+    omit = case.get("omit") or ()
+    vals = dict(maxnm=maxnm, deg=deg, dir=direction)
+    if case.get("pass_cap"):
+        vals["cap"] = CAP
+    obs = {}
+    # the GPU path under the CUDA simulator runs in a worker process while this process does the rest
+    if case.get("gpu") and _gpu_eligible(case):
+        obs["gpu"] = {"pending": _GPUSIM.submit(dict(pts=case["pts"], nrm=case["nrm"], m1=m1.tolist(), m2=m2.tolist(), voxel=voxel,
+                                                      vals=dict(maxnm=maxnm, deg=deg, dir=direction), omit=list(omit)))}
+    obs["cpu"] = _cpu(memthick, P, N, m1, m2, voxel, vals, omit)
     # numba candidate kernel with the documented multiplier, then the GPU-path assignment loop
     sm, tm = (m2, m1) if direction == "2to1" else (m1, m2)
     n = len(P)
@@ -740,35 +1302,89 @@ def run_impl(case):
     mi = np.zeros((n, CAP), dtype=np.int64)
     mc = np.zeros(n, dtype=np.int64)
     ti = np.where(tm)[0].astype(np.int64)
+    before = _snap(P, N, sm, tm, ti)
     memthick.find_matches_parallel(P, N, sm, tm, ti, maxnm / voxel, math.tan(math.radians(deg)) ** 2, md, mi, mc)
+    kernel_inputs_unchanged = _same(before, P, N, sm, tm, ti)
     cands = [[int(s), int(mi[s, j]), float(md[s, j])] for s in range(n) for j in range(int(mc[s]))]
-    th, valid, pp = memthick.process_matches_gpu2cpu(md.ravel(), mi.ravel(), mc, n, CAP, voxel)
-    obs["kernel"] = dict(cands=cands, counts_on_non_sources=int(mc[~sm].sum()), **_pairs(th, valid, pp))
+    mdf, mif = md.ravel(), mi.ravel()
+    before = _snap(mdf, mif, mc)
+    ret = memthick.process_matches_gpu2cpu(mdf, mif, mc, n, CAP, voxel)
+    obs["kernel"] = dict(cands=cands, counts_on_non_sources=int(mc[~sm].sum()), **_pairs(ret))
+    obs["kernel"]["inputs_unchanged"] = bool(kernel_inputs_unchanged and _same(before, mdf, mif, mc))
     # the statement's invariances, observed on the real code
     mo = case.get("motion")
     if mo:
         R = np.asarray(mo["matrix"], dtype=float) if "matrix" in mo else _rot(mo["rotvec"])
         b = np.asarray(mo["shift"], dtype=float)
-        obs["moved"] = _cpu(memthick, np.ascontiguousarray(P @ R.T + b), np.ascontiguousarray(N @ R.T), m1, m2, voxel, maxnm, deg, direction)
+        obs["moved"] = _cpu(memthick, np.ascontiguousarray(P @ R.T + b), np.ascontiguousarray(N @ R.T), m1, m2, voxel, vals, omit)
     if case.get("k"):
         k = case["k"]
-        obs["rescaled"] = _cpu(memthick, P, N, m1, m2, voxel * k, maxnm * k, deg, direction)
+        obs["rescaled"] = _cpu(memthick, P, N, m1, m2, voxel * k, dict(vals, maxnm=maxnm * k), omit)
+        # same physical maximum, other voxel size: another input of the quantifier (judged against the model and the checker)
+    if case.get("kv"):
+        obs["revoxel"] = _cpu(memthick, P, N, m1, m2, voxel * case["kv"], vals, omit)
     other = "1to2" if direction == "2to1" else "2to1"
-    obs["swapped"] = _cpu(memthick, P, N, m2, m1, voxel, maxnm, deg, other)
+    obs["swapped"] = _cpu(memthick, P, N, m2, m1, voxel, dict(vals, dir=other), omit)
+    # cross-call state (G2): the SAME caller-owned arrays, legitimately edited in place, go into a second call
+    if case.get("edit"):
+        for i in case["edit"]["unlabel"]:
+            m1[i] = False
+            m2[i] = False
+        obs["second"] = _cpu(memthick, P, N, m1, m2, voxel, vals, omit)
+        obs["third"] = _cpu(memthick, P, N, m1, m2, voxel, vals, omit)  # and once more, unchanged: a call must not depend on the call before
     return obs
 
 
-def requests(case, obs):
+def _flat(case):
     P = np.asarray(case["pts"], dtype=float).reshape(-1, 3)
     N = np.asarray(case["nrm"], dtype=float).reshape(-1, 3)
-    flat = [f2b(x) for row in np.hstack([P, N]).tolist() for x in row]
+    return [f2b(x) for row in np.hstack([P, N]).tolist() for x in row]
+
+
+def _plan(case, obs):
+    """which driver requests belong to this case, in order"""
+    plan = ["main"]
+    if "error" in obs:
+        return plan
+    if case.get("kv") and "revoxel" in obs:
+        plan.append("revoxel")
+    if case.get("edit") and "second" in obs:
+        plan.append("second")
+    g = obs.get("gpu")
+    if isinstance(g, dict) and "error" not in g and "pairs" in g:
+        plan.append("gpu")
+    return plan
+
+
+def requests(case, obs):
+    _resolve_gpu(obs)
     m1, m2 = _masks(case)
-    q = dict(op="all", pts=flat, m1=[int(x) for x in m1], m2=[int(x) for x in m2], voxel=f2b(case["voxel"]), maxnm=f2b(case["maxnm"]),
-             deg=f2b(case["deg"]), rev=1 if case["dir"] == "2to1" else 0)
-    if "error" not in obs:
-        q["out"] = obs["cpu"]["pairs"]
-        q["out_kernel"] = obs["kernel"]["pairs"]
-    return [q]
+    base = dict(op="all", pts=_flat(case), m1=[int(x) for x in m1], m2=[int(x) for x in m2], voxel=f2b(case["voxel"]), maxnm=f2b(case["maxnm"]),
+                deg=f2b(case["deg"]), rev=1 if case["dir"] == "2to1" else 0)
+    out = []
+    for tag in _plan(case, obs):
+        q = dict(base)
+        if tag == "main":
+            if "error" not in obs:
+                if "pairs" in obs["cpu"]:
+                    q["out"] = obs["cpu"]["pairs"]
+                if "pairs" in obs["kernel"]:
+                    q["out_kernel"] = obs["kernel"]["pairs"]
+        elif tag == "revoxel":
+            q["voxel"] = f2b(case["voxel"] * case["kv"])
+            if "pairs" in obs["revoxel"]:
+                q["out"] = obs["revoxel"]["pairs"]
+        elif tag == "second":
+            lab = _apply_edit(case, case["lab"])
+            q["m1"] = [int(l & 1 != 0) for l in lab]
+            q["m2"] = [int(l & 2 != 0) for l in lab]
+            if "pairs" in obs["second"]:
+                q["out"] = obs["second"]["pairs"]
+        elif tag == "gpu":
+            q["pts"] = _flat(_case32(case))
+            q["out_kernel"] = obs["gpu"]["pairs"]
+        out.append(q)
+    return out
 
 
 # ================================================================================ judge
@@ -777,7 +1393,7 @@ def _angle_deg(v, n):
     return math.degrees(math.atan2(float(np.linalg.norm(c)), float(np.dot(v, n))))
 
 
-def _direct(case, o, who):
+def _direct(case, o, who, th_tol=TH_TOL):
     """independent evaluation of the per-pair clauses of the statement on an implementation output"""
     out = []
     P = np.asarray(case["pts"], dtype=float).reshape(-1, 3)
@@ -801,7 +1417,7 @@ def _direct(case, o, who):
             out.append(dict(kind="spec", clause=f"{who}pair-outside-cone", detail=f"pair ({s},{t}): {ang:.4f} degrees off the normal, max_angle {case['deg']}"))
         if d * case["voxel"] > case["maxnm"] * (1 + 1e-9):
             out.append(dict(kind="spec", clause=f"{who}pair-beyond-max-thickness", detail=f"pair ({s},{t}): {d * case['voxel']:.6g} > {case['maxnm']:.6g}"))
-        if abs(th - d * case["voxel"]) > TH_TOL * max(1.0, abs(d * case["voxel"])):
+        if not isinstance(th, (int, float)) or isinstance(th, bool) or not (abs(th - d * case["voxel"]) <= th_tol * max(1.0, abs(d * case["voxel"]))):
             out.append(dict(kind="spec", clause=f"{who}thickness-is-not-distance-times-voxel", detail=f"pair ({s},{t}): reported {th!r}, distance*voxel {d * case['voxel']!r}"))
     return out
 
@@ -810,49 +1426,106 @@ def _same_pairs(a, b):
     return sorted(map(tuple, a["pairs"])) == sorted(map(tuple, b["pairs"]))
 
 
+def _usable(who, o, n, out):
+    """G3: what came back must be three equally long 1-d arrays: numeric thickness, boolean mask, integer partner index"""
+    if "shape_error" in o:
+        out.append(dict(kind="spec", clause=f"{who}output-is-not-a-triple-of-arrays", detail=o["shape_error"]))
+        return False
+    if "untyped" in o:
+        out.append(dict(kind="spec", clause=f"{who}output-not-numeric", detail=f"thickness dtype {o['dtype']}, mask dtype {o['valid_dtype']}, partner dtype {o['pp_dtype']}, "
+                        f"shapes {o['shapes']}: {str(o['untyped'])[:300]}"))
+        return False
+    if not o.get("inputs_unchanged", True):
+        out.append(dict(kind="spec", clause=f"{who}modifies-caller-input", detail="points / normals / masks (or the candidate buffers) differ after the call"))
+    if o["dtype"] != "float32" or o["pp_dtype"] != "int32" or o["n"] != n or not o["clean"]:
+        out.append(dict(kind="corr", clause=f"{who}output-shape", detail=f"clean={o['clean']} dtype={o['dtype']} partner dtype={o['pp_dtype']} n={o['n']} (documented: float32 / int32 / one row per point, zero where not valid)"))
+    return True
+
+
+def _checker(who, c, alt, out):
+    """findings of the Lean verified checker (Props/C20.check_sound) on a real output.
+    A target exactly on the search radius may be kept (closed KD-tree ball) or dropped (`dist < r` in the kernels): the statement
+    ("does not exceed") does not decide it, so a clause counts as violated only if the output fails under both readings."""
+    if c is None or alt is None:
+        out.append(dict(kind="corr", clause=who + "checker-did-not-run", detail=""))
+        return
+    if c["ok"]:
+        return
+    if alt["ok"]:
+        out.append(dict(kind="corr", clause=who + "radius-boundary-convention-differs-from-model",
+                        detail=f"output satisfies the statement only with the other reading of a target exactly on the radius: {c}"))
+        return
+    if not c["admissible"]:
+        dg = c.get("diag") or {}
+        if dg.get("not_source_or_not_target"):
+            cl = "pair-not-source-to-target"
+        elif dg.get("in_ball") is False:
+            cl = "pair-beyond-max-thickness"
+        elif dg.get("forward") is False:
+            cl = "pair-not-forward"
+        else:
+            cl = "pair-outside-cone"
+        detail = {k: (b2f(v) if k in ("dist", "proj", "lat2", "rhs") else v) for k, v in dg.items()}
+        out.append(dict(kind="spec", clause=who + cl, detail=f"verified checker: reported pair is not admissible: {detail}"))
+    if not c["one_to_one"]:
+        out.append(dict(kind="spec", clause=who + "not-one-to-one", detail="verified checker: a source or a target occurs in two pairs"))
+    if not c["greedy"]:
+        out.append(dict(kind="spec", clause=who + "not-greedy-by-distance", detail="verified checker: an admissible pair shares neither point with a reported pair that is not farther "
+                        "(an admissible pair of unmatched points is left over, or a matched source/target had a closer admissible partner)"))
+
+
+def _vs_model(who, o, mpairs, out, tol=TH_TOL):
+    mp = sorted((s, t) for s, t, _, _ in mpairs)
+    ip = sorted(map(tuple, o["pairs"]))
+    if mp != ip:
+        diff = sorted(set(mp) ^ set(ip))[:4]
+        out.append(dict(kind="corr", clause=f"{who}-pairs-vs-model", detail=f"model {len(mp)} pairs, implementation {len(ip)}; symmetric difference starts {diff}"))
+    else:
+        mt = {(s, t): b2f(tb) for s, t, _, tb in mpairs}
+        dev = max([abs(mt[tuple(p)] - th) / max(1.0, abs(mt[tuple(p)])) for p, th in zip(o["pairs"], o["th"])] or [0.0])
+        if dev > tol:
+            out.append(dict(kind="corr", clause=f"{who}-thickness-vs-model", detail=f"relative deviation {dev:.3g}"))
+
+
+def _vs_cands(who, cands, mcands, out, tol):
+    mc = sorted((s, t) for s, t, _ in mcands)
+    kc = sorted((s, t) for s, t, _ in cands)
+    if mc != kc:
+        out.append(dict(kind="corr", clause=f"{who}-candidates-vs-model", detail=f"model {len(mc)}, kernel {len(kc)}; symmetric difference starts {sorted(set(mc) ^ set(kc))[:4]}"))
+    else:
+        md = {(s, t): b2f(db) for s, t, db in mcands}
+        dev = max([abs(md[(s, t)] - d) / max(1.0, d) for s, t, d in cands] or [0.0])
+        if dev > tol:
+            out.append(dict(kind="corr", clause=f"{who}-distances-vs-model", detail=f"relative deviation {dev:.3g}"))
+
+
 def judge(case, obs, resps):
     out = []
     if "error" in obs:
+        if not obs.get("where"):  # G4: no frame of the traceback lies inside cryocat
+            return [dict(kind="corr", clause="harness-or-library-raised", detail=obs["error"])]
         return [dict(kind="spec", clause="raises", detail=obs["error"] + " @" + obs.get("where", ""))]
-    R = resps[0]
-    if "error" in R:
-        return [dict(kind="corr", clause="model-rejects", detail=str(R))]
+    _resolve_gpu(obs)
+    plan = _plan(case, obs)
+    if len(plan) != len(resps):
+        return [dict(kind="corr", clause="driver-requests-out-of-step", detail=f"{plan} vs {len(resps)} responses")]
+    RS = dict(zip(plan, resps))
+    for tag, r in RS.items():
+        if "error" in r:
+            return [dict(kind="corr", clause="model-rejects", detail=f"{tag}: {r}")]
+    R = RS["main"]
+    n = len(case["lab"])
     cpu, ker = obs["cpu"], obs["kernel"]
-    # ---- verified checker on the real outputs (Props/C20.check_sound) --------------------------------
-    # A target exactly on the search radius may be kept (closed KD-tree ball) or dropped (`dist < r` in the kernels): the statement
-    # ("does not exceed") does not decide it, so a clause counts as violated only if the output fails under both readings.
-    for who, key in (("", "check"), ("kernel:", "check_kernel")):
-        c, alt = R.get(key), R.get(key + "_alt")
-        if c is None or alt is None:
-            out.append(dict(kind="corr", clause=who + "checker-did-not-run", detail="")); continue
-        if c["ok"]:
-            continue
-        if alt["ok"]:
-            out.append(dict(kind="corr", clause=who + "radius-boundary-convention-differs-from-model",
-                            detail=f"output satisfies the statement only with the other reading of a target exactly on the radius: {c}"))
-            continue
-        if not c["admissible"]:
-            dg = c.get("diag") or {}
-            if dg.get("not_source_or_not_target"):
-                cl = "pair-not-source-to-target"
-            elif dg.get("in_ball") is False:
-                cl = "pair-beyond-max-thickness"
-            elif dg.get("forward") is False:
-                cl = "pair-not-forward"
-            else:
-                cl = "pair-outside-cone"
-            detail = {k: (b2f(v) if k in ("dist", "proj", "lat2", "rhs") else v) for k, v in dg.items()}
-            out.append(dict(kind="spec", clause=who + cl, detail=f"verified checker: reported pair is not admissible: {detail}"))
-        if not c["one_to_one"]:
-            out.append(dict(kind="spec", clause=who + "not-one-to-one", detail="verified checker: a source or a target occurs in two pairs"))
-        if not c["greedy"]:
-            out.append(dict(kind="spec", clause=who + "not-greedy-by-distance", detail="verified checker: an admissible pair shares neither point with a reported pair that is not farther "
-                            "(an admissible pair of unmatched points is left over, or a matched source/target had a closer admissible partner)"))
-    # ---- independent evaluation of the per-pair clauses ----------------------------------------------
-    out += _direct(case, cpu, "")
-    out += _direct(case, ker, "kernel:")
+    ok_cpu, ok_ker = _usable("", cpu, n, out), _usable("kernel:", ker, n, out)
+    # ---- verified checker + independent evaluation of the per-pair clauses, on the real outputs ---------
+    if ok_cpu:
+        _checker("", R.get("check"), R.get("check_alt"), out)
+        out += _direct(case, cpu, "")
+    if ok_ker:
+        _checker("kernel:", R.get("check_kernel"), R.get("check_kernel_alt"), out)
+        out += _direct(case, ker, "kernel:")
     # ---- invariances of the statement, on the real code -----------------------------------------------
-    if "moved" in obs:
+    if ok_cpu and "moved" in obs and _usable("moved:", obs["moved"], n, out):
         mv = obs["moved"]
         if not _same_pairs(cpu, mv):
             out.append(dict(kind="spec", clause="rigid-motion-changes-pairing", detail=f"{len(cpu['pairs'])} pairs before, {len(mv['pairs'])} after; first difference "
@@ -862,7 +1535,7 @@ def judge(case, obs, resps):
             dev = max([abs(a[k] - b[k]) / max(1.0, abs(a[k])) for k in a] or [0.0])
             if dev > TH_TOL:
                 out.append(dict(kind="spec", clause="rigid-motion-changes-thickness", detail=f"relative deviation {dev:.3g}"))
-    if "rescaled" in obs:
+    if ok_cpu and "rescaled" in obs and _usable("rescaled:", obs["rescaled"], n, out):
         rs = obs["rescaled"]
         if not _same_pairs(cpu, rs):
             out.append(dict(kind="spec", clause="voxel-rescaling-changes-pairing", detail=f"k={case['k']}: {len(cpu['pairs'])} pairs vs {len(rs['pairs'])}"))
@@ -871,32 +1544,58 @@ def judge(case, obs, resps):
             dev = max([abs(a[k] * case["k"] - b[k]) / max(1.0, abs(b[k])) for k in a] or [0.0])
             if dev > TH_TOL:
                 out.append(dict(kind="spec", clause="thickness-does-not-scale-with-voxel", detail=f"k={case['k']}: relative deviation {dev:.3g}"))
-    sw = obs["swapped"]
-    if sw["pairs"] != cpu["pairs"] or sw["th"] != cpu["th"]:
-        out.append(dict(kind="spec", clause="direction-does-not-swap-roles", detail=f"direction {case['dir']} on (m1,m2) differs from the other direction on (m2,m1)"))
+    if ok_cpu and _usable("swapped:", obs["swapped"], n, out):
+        sw = obs["swapped"]
+        if sw["pairs"] != cpu["pairs"] or sw["th"] != cpu["th"]:
+            out.append(dict(kind="spec", clause="direction-does-not-swap-roles", detail=f"direction {case['dir']} on (m1,m2) differs from the other direction on (m2,m1)"))
+    # ---- other voxel size at the SAME physical maximum thickness: just another input; thickness of a pair kept by both runs scales
+    if "revoxel" in RS and _usable("revoxel:", obs["revoxel"], n, out):
+        rv, c2 = obs["revoxel"], dict(case, voxel=case["voxel"] * case["kv"])
+        _checker("revoxel:", RS["revoxel"].get("check"), RS["revoxel"].get("check_alt"), out)
+        out += _direct(c2, rv, "revoxel:")
+        _vs_model("revoxel", rv, RS["revoxel"]["pairs"], out)
+        if ok_cpu:
+            a = dict(zip(map(tuple, cpu["pairs"]), cpu["th"]))
+            for p, th in zip(map(tuple, rv["pairs"]), rv["th"]):
+                if p in a and abs(a[p] * case["kv"] - th) > TH_TOL * max(1.0, abs(th)):
+                    out.append(dict(kind="spec", clause="thickness-of-a-pair-does-not-scale-with-voxel", detail=f"pair {p}: {a[p]} at voxel {case['voxel']}, {th} at voxel {c2['voxel']}"))
+                    break
+    # ---- cross-call state: second call on the same (edited in place) caller-owned arrays, third call unchanged --------------
+    if "second" in RS and _usable("second-call:", obs["second"], n, out):
+        sc, c2 = obs["second"], dict(case, lab=_apply_edit(case, case["lab"]))
+        _checker("second-call:", RS["second"].get("check"), RS["second"].get("check_alt"), out)
+        out += _direct(c2, sc, "second-call:")
+        _vs_model("second-call", sc, RS["second"]["pairs"], out)
+        if _usable("third-call:", obs["third"], n, out):
+            th3 = obs["third"]
+            if th3["pairs"] != sc["pairs"] or th3["th"] != sc["th"]:
+                out.append(dict(kind="spec", clause="repeated-call-gives-a-different-result", detail=f"same arrays, same arguments: {len(sc['pairs'])} pairs, then {len(th3['pairs'])}"))
+    # ---- the GPU path (measure_thickness_gpu + CUDA kernel, executed by numba's CUDA simulator) on the float32-rounded input ------
+    g = obs.get("gpu")
+    if isinstance(g, dict):
+        if "error" in g:
+            if g.get("where"):
+                out.append(dict(kind="spec", clause="gpu:raises", detail=g["error"] + " @" + g["where"]))
+            else:
+                out.append(dict(kind="corr", clause="harness-or-library-raised", detail="CUDA simulator run: " + g["error"]))
+        elif _usable("gpu:", g, n, out):
+            c32 = _case32(case)
+            RG = RS["gpu"]
+            _checker("gpu:", RG.get("check_kernel"), RG.get("check_kernel_alt"), out)
+            out += _direct(c32, g, "gpu:", th_tol=GPU_TH_TOL)
+            _vs_model("gpu", g, RG["pairs_strict"], out, tol=GPU_TH_TOL)
+            if "cands" not in g:
+                out.append(dict(kind="corr", clause="gpu-kernel-output-not-observed", detail="process_matches_gpu2cpu was not called with the kernel's buffers"))
+            else:
+                _vs_cands("gpu-kernel", g["cands"], RG["cands_strict"], out, GPU_TH_TOL)
+                if g.get("cap") != CAP or g.get("counts_over_cap"):
+                    out.append(dict(kind="corr", clause="gpu-kernel-cap", detail=f"cap {g.get('cap')}, rows over the cap {g.get('counts_over_cap')}"))
     # ---- correspondence with the Lean model ----------------------------------------------------------
-    for who, o, key in (("cpu", cpu, "pairs"), ("kernel", ker, "pairs_strict")):
-        mp = sorted((s, t) for s, t, _, _ in R[key])
-        ip = sorted(map(tuple, o["pairs"]))
-        if mp != ip:
-            diff = sorted(set(mp) ^ set(ip))[:4]
-            out.append(dict(kind="corr", clause=f"{who}-pairs-vs-model", detail=f"model {len(mp)} pairs, implementation {len(ip)}; symmetric difference starts {diff}"))
-        else:
-            mt = {(s, t): b2f(tb) for s, t, _, tb in R[key]}
-            dev = max([abs(mt[tuple(p)] - th) / max(1.0, abs(mt[tuple(p)])) for p, th in zip(o["pairs"], o["th"])] or [0.0])
-            if dev > TH_TOL:
-                out.append(dict(kind="corr", clause=f"{who}-thickness-vs-model", detail=f"relative deviation {dev:.3g}"))
-        if not o["clean"] or o["dtype"] != "float32" or o["n"] != len(case["lab"]):
-            out.append(dict(kind="corr", clause=f"{who}-output-shape", detail=f"clean={o['clean']} dtype={o['dtype']} n={o['n']}"))
-    mc = sorted((s, t) for s, t, _ in R["cands_strict"])
-    kc = sorted((s, t) for s, t, _ in ker["cands"])
-    if mc != kc:
-        out.append(dict(kind="corr", clause="kernel-candidates-vs-model", detail=f"model {len(mc)}, numba kernel {len(kc)}; symmetric difference starts {sorted(set(mc) ^ set(kc))[:4]}"))
-    else:
-        md = {(s, t): b2f(db) for s, t, db in R["cands_strict"]}
-        dev = max([abs(md[(s, t)] - d) / max(1.0, d) for s, t, d in ker["cands"]] or [0.0])
-        if dev > 1e-12:
-            out.append(dict(kind="corr", clause="kernel-distances-vs-model", detail=f"relative deviation {dev:.3g}"))
+    if ok_cpu:
+        _vs_model("cpu", cpu, R["pairs"], out)
+    if ok_ker:
+        _vs_model("kernel", ker, R["pairs_strict"], out)
+    _vs_cands("kernel", ker["cands"], R["cands_strict"], out, 1e-12)
     if ker["counts_on_non_sources"]:
         out.append(dict(kind="corr", clause="kernel-writes-non-source-rows", detail=str(ker["counts_on_non_sources"])))
     return out
@@ -906,6 +1605,8 @@ def nontrivial(case, obs):
     if "error" in obs:
         return False
     m = case.get("meta") or {}
+    if "pairs" not in obs["cpu"]:
+        return False
     npairs = len(obs["cpu"]["pairs"])
     return m.get("n_adm", 0) >= 2 and npairs >= 1 and m.get("n_adm", 0) > npairs and m.get("between_cone_and_45", 0) >= 1
 
@@ -933,6 +1634,20 @@ def stats(case, obs, resps):
           "targets_exactly_on_radius": _bucket(m.get("on_radius", 0), [0, 1, 5])}
     if "error" in obs:
         st["impl"] = "raised"
+        return st
+    g = obs.get("gpu")
+    st["gpu_path_under_cuda_simulator"] = ("not-requested" if not case.get("gpu") else "skipped:float32-margins-or-size" if g is None else
+                                           "raised" if "error" in g else "run" if "pairs" in g else "unusable-output")
+    if isinstance(g, dict) and "pairs" in g:
+        st["gpu_pairs_assigned"] = _bucket(len(g["pairs"]), [0, 1, 5, 20, 100])
+        st["gpu_arguments_left_to_defaults"] = g.get("omitted") or ["none"]
+    st["cpu_arguments_left_to_defaults"] = obs["cpu"].get("omitted") or ["none"]
+    st["cap_passed_explicitly"] = bool(case.get("pass_cap"))
+    st["second_voxel_size_same_max_nm"] = str(case.get("kv"))
+    st["cross_call_edit_unlabelled_points"] = _bucket(len((case.get("edit") or {}).get("unlabel", [])), [0, 1, 2, 3, 10])
+    st["returned_dtypes"] = f"{obs['cpu'].get('dtype')}/{obs['cpu'].get('valid_dtype')}/{obs['cpu'].get('pp_dtype')}"
+    if "pairs" not in obs["cpu"]:
+        st["impl"] = "unusable-output"
         return st
     npairs = len(obs["cpu"]["pairs"])
     st["pairs_assigned"] = _bucket(npairs, [0, 1, 5, 20, 100, 300])
@@ -992,12 +1707,17 @@ LEVEL_TEXT = ("Lean 4 theorems about an executable model of measure_thickness_cp
               "process_matches_gpu2cpu), for every point set, labelling, voxel size, maximum thickness, cone half-angle and direction, over any linearly ordered "
               "field: model_spec (every pair admissible; one-to-one; greedy by increasing distance), model_lex (Python tuple tie-break), check_sound (verified checker "
               "run on every real output), no_leftover, no_closer, at_most_one, within_range_and_forward, in_cone / cone_iff (the test with multiplier tan^2 is exactly "
-              "the cone of half-angle max_angle for unit normals), measure_move (rigid motion), measure_rescale (voxel size), direction_swap, cone_counterexample "
-              "(regression witness of D17). Tied to the source by translator theorems (the three admissibility sites CPU/numba/CUDA are syntactically identical after "
-              "inlining and evaluate to the model's d2/proj/lat2 over every commutative ring; operators; multiplier tan(radians(deg))**2 on both paths; sort/assignment "
-              "loop shape) and by a differential run of the real CPU path and the real numba kernel against the model at Float")
+              "the cone of half-angle max_angle for unit normals), measure_move (rigid motion), measure_rescale (voxel size with the maximum rescaled along), "
+              "thickness_scales + cands_of_larger_voxel (what holds at a fixed physical maximum), direction_swap, cone_counterexample "
+              "(regression witness of D17). Tied to the source by translator theorems whose expected values are literals compared by the Lean kernel: the three "
+              "admissibility sites CPU/numba/CUDA are syntactically identical after inlining and evaluate to the model's d2/proj/lat2 over every commutative ring; "
+              "the recorded distance is the square root of that d2; guard chain and store block of each site; whole canonical bodies (alpha-renamed statement lists) "
+              "of the two kernels, measure_thickness_cpu/gpu and the two assignment loops; signature defaults; multiplier tan(radians(deg))**2 and radius on both paths. "
+              "Differential run of the real CPU path, the real numba kernel and (under numba's CUDA simulator) the real GPU path against the model at Float")
 LEVEL_NOTE = ("proved: all clauses for the model and for every implementation output accepted by the verified checker, in exact arithmetic with an abstract square root and an "
               "abstract angle (cos, tan with cos^2(1+tan^2)=1). Validated only: floating point, libm tan/sqrt, the KD-tree ball query, numba scheduling, float32 rounding of the "
-              "thickness (tolerance 1e-6); the CUDA kernel is tied by the translator only (never executed); the 25-candidate cap is outside the quantifier and not modelled")
-TECHNIQUE = "Lean 4 proof (greedy-fold invariant over a sorted list, ring identities for rigid motions and the cone, verified checker) + regenerated expression trees + differential correspondence with margins"
+              "thickness (tolerance 1e-6) and of the GPU path's coordinates; the GPU path is executed by the CUDA simulator only (never on a device); 'scales with the voxel size' is proved as "
+              "measure_rescale (maximum rescaled along) - at a fixed max_thickness_nm only thickness_scales / cands_of_larger_voxel hold and the real code is run at a second "
+              "voxel size as an ordinary input; the 25-candidate cap is outside the quantifier and not modelled")
+TECHNIQUE = "Lean 4 proof (greedy-fold invariant over a sorted list, ring identities for rigid motions and the cone, verified checker) + regenerated expression trees and canonical statement lists compared with hand-written literals by the kernel + differential correspondence with margins (CPU, numba, CUDA simulator)"
 DESIGN_REF = "DESIGN.md section 4, C20; Appendix A.1"
